@@ -257,8 +257,8 @@ def C10.Quat.setAxisAngle {α : Type} [Add α] [Mul α] [Div α] [Neg α] [LT α
   else
     ⟨t542, ⟨((axis.x / t544) * t543), ((axis.y / t544) * t543), ((axis.z / t544) * t543)⟩⟩
 
-/-- extracted from the C++ template at T = Sym; 79 path(s) -/
-def C10.Quat.setRotation {α : Type} [Add α] [Sub α] [Mul α] [Div α] [Neg α] [LT α] [LE α] [DecidableLT α] [DecidableLE α] [DecidableEq α] [OfNat α 0] [OfNat α 1] [OfNat α 2] (tmin : α) (sqrt : α → α) (q : Quat α) (vfrom : V3 α) (vto : V3 α) : (Quat α) :=
+/-- extracted from the C++ template at T = Sym; 115 path(s) -/
+def C10.Quat.setRotation {α : Type} [Add α] [Sub α] [Mul α] [Div α] [Neg α] [LT α] [LE α] [DecidableLT α] [DecidableLE α] [DecidableEq α] [OfNat α 0] [OfNat α 1] [OfNat α 2] [OfNat α 8] (tmin : α) (teps : α) (sqrt : α → α) (q : Quat α) (vfrom : V3 α) (vto : V3 α) : (Quat α) :=
   let t558 := (V3.length tmin sqrt ⟨vfrom.x, vfrom.y, vfrom.z⟩)
   let t559 := (V3.length tmin sqrt ⟨vto.x, vto.y, vto.z⟩)
   let t560 := ((0 : α) * (0 : α))
@@ -270,226 +270,264 @@ def C10.Quat.setRotation {α : Type} [Add α] [Sub α] [Mul α] [Div α] [Neg α
   let t567 := ((0 : α) * t566)
   let t569 := ((t567 + t567) + t567)
   let t570 := (t567 - t567)
-  let t571 := (t565 * t565)
-  let t575 := ((t562 * t562) - ((t571 + t571) + t571))
-  let t580 := (((t562 * t565) + (t565 * t562)) + (t571 - t571))
-  let t581 := (t566 * t566)
-  let t583 := ((t581 + t581) + t581)
-  let t584 := ((0 : α) * (1 : α))
-  let t585 := (t560 - t584)
-  let t586 := (t584 - t560)
-  let t587 := (V3.length tmin sqrt ⟨t565, t586, t585⟩)
-  let t588 := (t585 / t587)
-  let t589 := (t586 / t587)
-  let t590 := (t565 / t587)
-  let t591 := ((0 : α) + t566)
-  let t592 := (V3.length tmin sqrt ⟨t591, t591, t591⟩)
-  let t593 := (t566 + (0 : α))
-  let t594 := (V3.length tmin sqrt ⟨t593, t593, t593⟩)
-  let t595 := (t566 * (0 : α))
-  let t597 := ((t595 + t595) + t595)
-  let t598 := (t595 - t595)
-  let t599 := (t565 * t598)
-  let t608 := (((t562 * t598) + (t565 * t597)) + (t599 - t599))
-  let t610 := (t566 * (t593 / t594))
-  let t612 := ((t610 + t610) + t610)
-  let t613 := (t610 - t610)
-  let t614 := (t565 * t613)
-  let t623 := (((t562 * t613) + (t565 * t612)) + (t614 - t614))
-  let t625 := ((0 : α) * (t591 / t592))
-  let t627 := ((t625 + t625) + t625)
-  let t628 := (t625 - t625)
-  let t629 := (t628 * t598)
-  let t638 := (((t627 * t598) + (t628 * t597)) + (t629 - t629))
-  let t639 := (t628 * t613)
-  let t648 := (((t627 * t613) + (t628 * t612)) + (t639 - t639))
-  let t649 := (vto.z / t559)
-  let t650 := (vto.y / t559)
-  let t651 := (vto.x / t559)
-  let t656 := ((((0 : α) * t651) + ((0 : α) * t650)) + ((0 : α) * t649))
-  let t657 := ((0 : α) + t649)
-  let t658 := ((0 : α) + t650)
-  let t659 := ((0 : α) + t651)
-  let t660 := (V3.length tmin sqrt ⟨t659, t658, t657⟩)
-  let t661 := (t657 / t660)
-  let t662 := (t658 / t660)
-  let t663 := (t659 / t660)
-  let t664 := ((0 : α) * t661)
-  let t665 := ((0 : α) * t662)
-  let t666 := ((0 : α) * t663)
-  let t668 := ((t666 + t665) + t664)
-  let t669 := (t665 - t666)
-  let t670 := (t666 - t664)
-  let t671 := (t664 - t665)
-  let t672 := (t570 * t565)
-  let t681 := (((t569 * t565) + (t570 * t562)) + (t672 - t672))
-  let t686 := (((t663 * t663) + (t662 * t662)) + (t661 * t661))
-  let t687 := ((0 : α) + t661)
-  let t688 := ((0 : α) + t662)
-  let t689 := ((0 : α) + t663)
-  let t690 := (V3.length tmin sqrt ⟨t689, t688, t687⟩)
-  let t691 := (t661 + t649)
-  let t692 := (t662 + t650)
-  let t693 := (t663 + t651)
-  let t694 := (V3.length tmin sqrt ⟨t693, t692, t691⟩)
-  let t695 := (t661 * (0 : α))
-  let t696 := (t662 * (0 : α))
-  let t697 := (t663 * (0 : α))
-  let t699 := ((t697 + t696) + t695)
-  let t700 := (t697 - t696)
-  let t701 := (t695 - t697)
-  let t702 := (t696 - t695)
-  let t703 := (t565 * t700)
-  let t704 := (t565 * t701)
-  let t705 := (t565 * t702)
-  let t713 := (t565 * t699)
-  let t723 := (t691 / t694)
-  let t724 := (t692 / t694)
-  let t725 := (t693 / t694)
-  let t730 := (((t663 * t725) + (t662 * t724)) + (t661 * t723))
-  let t733 := ((t663 * t724) - (t662 * t725))
-  let t736 := ((t661 * t725) - (t663 * t723))
-  let t739 := ((t662 * t723) - (t661 * t724))
-  let t740 := (t565 * t733)
-  let t741 := (t565 * t736)
-  let t742 := (t565 * t739)
-  let t750 := (t565 * t730)
-  let t763 := ((0 : α) * (t687 / t690))
-  let t764 := ((0 : α) * (t688 / t690))
-  let t765 := ((0 : α) * (t689 / t690))
-  let t767 := ((t765 + t764) + t763)
-  let t768 := (t764 - t765)
-  let t769 := (t765 - t763)
-  let t770 := (t763 - t764)
-  let t827 := (vfrom.z / t558)
-  let t828 := (vfrom.y / t558)
-  let t829 := (vfrom.x / t558)
-  let t830 := (t827 * (0 : α))
-  let t831 := (t828 * (0 : α))
-  let t832 := (t829 * (0 : α))
-  let t834 := ((t832 + t831) + t830)
-  let t835 := (t827 + (0 : α))
-  let t836 := (t828 + (0 : α))
-  let t837 := (t829 + (0 : α))
-  let t838 := (V3.length tmin sqrt ⟨t837, t836, t835⟩)
-  let t839 := (t832 - t831)
-  let t840 := (t830 - t832)
-  let t841 := (t831 - t830)
-  let t842 := (t835 / t838)
-  let t843 := (t836 / t838)
-  let t844 := (t837 / t838)
-  let t849 := (((t829 * t844) + (t828 * t843)) + (t827 * t842))
-  let t852 := ((t829 * t843) - (t828 * t844))
-  let t855 := ((t827 * t844) - (t829 * t842))
-  let t858 := ((t828 * t842) - (t827 * t843))
-  let t859 := (t827 * t827)
-  let t860 := (t828 * t828)
-  let t861 := (t829 * t829)
-  let t862 := (t828 * (1 : α))
-  let t863 := (t832 - t862)
-  let t864 := (t827 * (1 : α))
-  let t865 := (t864 - t832)
-  let t866 := (V3.length tmin sqrt ⟨t841, t865, t863⟩)
-  let t867 := (t863 / t866)
-  let t868 := (t865 / t866)
-  let t869 := (t841 / t866)
-  let t870 := (t829 * (1 : α))
-  let t871 := (t870 - t831)
-  let t872 := (t831 - t864)
-  let t873 := (V3.length tmin sqrt ⟨t872, t840, t871⟩)
-  let t874 := (t871 / t873)
-  let t875 := (t840 / t873)
-  let t876 := (t872 / t873)
-  let t877 := (t830 - t870)
-  let t878 := (t862 - t830)
-  let t879 := (V3.length tmin sqrt ⟨t878, t877, t839⟩)
-  let t880 := (t839 / t879)
-  let t881 := (t877 / t879)
-  let t882 := (t878 / t879)
-  let t883 := (t839 * t565)
-  let t884 := (t840 * t565)
-  let t885 := (t841 * t565)
-  let t889 := ((t834 * t562) - ((t885 + t884) + t883))
-  let t896 := (t834 * t565)
-  let t900 := ((t896 + (t839 * t562)) + (t885 - t884))
-  let t901 := ((t896 + (t840 * t562)) + (t883 - t885))
-  let t902 := ((t896 + (t841 * t562)) + (t884 - t883))
-  let t903 := (t839 * t570)
-  let t904 := (t840 * t570)
-  let t905 := (t841 * t570)
-  let t916 := (t834 * t570)
-  let t927 := (((t844 * t844) + (t843 * t843)) + (t842 * t842))
-  let t928 := (t827 + t842)
-  let t929 := (t828 + t843)
-  let t930 := (t829 + t844)
-  let t931 := (V3.length tmin sqrt ⟨t930, t929, t928⟩)
-  let t932 := (t842 + (0 : α))
-  let t933 := (t843 + (0 : α))
-  let t934 := (t844 + (0 : α))
-  let t935 := (V3.length tmin sqrt ⟨t934, t933, t932⟩)
-  let t936 := (t842 * (0 : α))
-  let t937 := (t843 * (0 : α))
-  let t938 := (t844 * (0 : α))
-  let t940 := ((t938 + t937) + t936)
-  let t941 := (t938 - t937)
-  let t942 := (t936 - t938)
-  let t943 := (t937 - t936)
-  let t972 := (t932 / t935)
-  let t973 := (t933 / t935)
-  let t974 := (t934 / t935)
-  let t979 := (((t844 * t974) + (t843 * t973)) + (t842 * t972))
-  let t982 := ((t844 * t973) - (t843 * t974))
-  let t985 := ((t842 * t974) - (t844 * t972))
-  let t988 := ((t843 * t972) - (t842 * t973))
-  let t1017 := (t928 / t931)
-  let t1018 := (t929 / t931)
-  let t1019 := (t930 / t931)
-  let t1024 := (((t829 * t1019) + (t828 * t1018)) + (t827 * t1017))
-  let t1027 := ((t829 * t1018) - (t828 * t1019))
-  let t1030 := ((t827 * t1019) - (t829 * t1017))
-  let t1033 := ((t828 * t1017) - (t827 * t1018))
-  let t1094 := (((t829 * t651) + (t828 * t650)) + (t827 * t649))
-  let t1095 := (t827 + t649)
-  let t1096 := (t828 + t650)
-  let t1097 := (t829 + t651)
-  let t1098 := (V3.length tmin sqrt ⟨t1097, t1096, t1095⟩)
-  let t1099 := (t1095 / t1098)
-  let t1100 := (t1096 / t1098)
-  let t1101 := (t1097 / t1098)
-  let t1144 := (t852 * t565)
-  let t1145 := (t855 * t565)
-  let t1146 := (t858 * t565)
-  let t1157 := (t849 * t565)
-  let t1196 := (((t1101 * t1101) + (t1100 * t1100)) + (t1099 * t1099))
-  let t1197 := (t827 + t1099)
-  let t1198 := (t828 + t1100)
-  let t1199 := (t829 + t1101)
-  let t1200 := (V3.length tmin sqrt ⟨t1199, t1198, t1197⟩)
-  let t1201 := (t1099 + t649)
-  let t1202 := (t1100 + t650)
-  let t1203 := (t1101 + t651)
-  let t1204 := (V3.length tmin sqrt ⟨t1203, t1202, t1201⟩)
-  let t1205 := (t1099 * (0 : α))
-  let t1206 := (t1100 * (0 : α))
-  let t1207 := (t1101 * (0 : α))
-  let t1209 := ((t1207 + t1206) + t1205)
-  let t1210 := (t1207 - t1206)
-  let t1211 := (t1205 - t1207)
-  let t1212 := (t1206 - t1205)
-  let t1241 := (t1201 / t1204)
-  let t1242 := (t1202 / t1204)
-  let t1243 := (t1203 / t1204)
-  let t1248 := (((t1101 * t1243) + (t1100 * t1242)) + (t1099 * t1241))
-  let t1251 := ((t1101 * t1242) - (t1100 * t1243))
-  let t1254 := ((t1099 * t1243) - (t1101 * t1241))
-  let t1257 := ((t1100 * t1241) - (t1099 * t1242))
-  let t1286 := (t1197 / t1200)
-  let t1287 := (t1198 / t1200)
-  let t1288 := (t1199 / t1200)
-  let t1293 := (((t829 * t1288) + (t828 * t1287)) + (t827 * t1286))
-  let t1296 := ((t829 * t1287) - (t828 * t1288))
-  let t1299 := ((t827 * t1288) - (t829 * t1286))
-  let t1302 := ((t828 * t1286) - (t827 * t1287))
+  let t573 := ((8 : α) * teps)
+  let t574 := (t573 * t573)
+  let t575 := (t563 * t563)
+  let t577 := ((t575 + t575) + t575)
+  let t578 := (t565 * t565)
+  let t582 := ((t562 * t562) - ((t578 + t578) + t578))
+  let t587 := (((t562 * t565) + (t565 * t562)) + (t578 - t578))
+  let t588 := (t566 * t566)
+  let t590 := ((t588 + t588) + t588)
+  let t591 := ((0 : α) * (1 : α))
+  let t592 := (t560 - t591)
+  let t593 := (t591 - t560)
+  let t594 := (V3.length tmin sqrt ⟨t565, t593, t592⟩)
+  let t595 := (t592 / t594)
+  let t596 := (t593 / t594)
+  let t597 := (t565 / t594)
+  let t598 := ((0 : α) + t566)
+  let t599 := (V3.length tmin sqrt ⟨t598, t598, t598⟩)
+  let t600 := (t566 + (0 : α))
+  let t601 := (V3.length tmin sqrt ⟨t600, t600, t600⟩)
+  let t602 := (t566 * (0 : α))
+  let t604 := ((t602 + t602) + t602)
+  let t605 := (t602 - t602)
+  let t606 := (t565 * t605)
+  let t615 := (((t562 * t605) + (t565 * t604)) + (t606 - t606))
+  let t617 := (t566 * (t600 / t601))
+  let t619 := ((t617 + t617) + t617)
+  let t620 := (t617 - t617)
+  let t621 := (t565 * t620)
+  let t630 := (((t562 * t620) + (t565 * t619)) + (t621 - t621))
+  let t632 := ((0 : α) * (t598 / t599))
+  let t634 := ((t632 + t632) + t632)
+  let t635 := (t632 - t632)
+  let t636 := (t635 * t605)
+  let t645 := (((t634 * t605) + (t635 * t604)) + (t636 - t636))
+  let t646 := (t635 * t620)
+  let t655 := (((t634 * t620) + (t635 * t619)) + (t646 - t646))
+  let t656 := (t570 * t570)
+  let t665 := (((t569 * t570) + (t570 * t569)) + (t656 - t656))
+  let t666 := (vto.z / t559)
+  let t667 := (vto.y / t559)
+  let t668 := (vto.x / t559)
+  let t673 := ((((0 : α) * t668) + ((0 : α) * t667)) + ((0 : α) * t666))
+  let t674 := ((0 : α) + t666)
+  let t675 := ((0 : α) + t667)
+  let t676 := ((0 : α) + t668)
+  let t677 := (V3.length tmin sqrt ⟨t676, t675, t674⟩)
+  let t678 := (t674 / t677)
+  let t679 := (t675 / t677)
+  let t680 := (t676 / t677)
+  let t681 := ((0 : α) * t678)
+  let t682 := ((0 : α) * t679)
+  let t683 := ((0 : α) * t680)
+  let t685 := ((t683 + t682) + t681)
+  let t686 := (t682 - t683)
+  let t687 := (t683 - t681)
+  let t688 := (t681 - t682)
+  let t693 := (((t676 * t676) + (t675 * t675)) + (t674 * t674))
+  let t694 := (t570 * t565)
+  let t698 := ((t569 * t562) - ((t694 + t694) + t694))
+  let t703 := (((t569 * t565) + (t570 * t562)) + (t694 - t694))
+  let t708 := (((t680 * t680) + (t679 * t679)) + (t678 * t678))
+  let t709 := ((0 : α) + t678)
+  let t710 := ((0 : α) + t679)
+  let t711 := ((0 : α) + t680)
+  let t712 := (V3.length tmin sqrt ⟨t711, t710, t709⟩)
+  let t713 := (t678 + t666)
+  let t714 := (t679 + t667)
+  let t715 := (t680 + t668)
+  let t716 := (V3.length tmin sqrt ⟨t715, t714, t713⟩)
+  let t717 := (t678 * (0 : α))
+  let t718 := (t679 * (0 : α))
+  let t719 := (t680 * (0 : α))
+  let t721 := ((t719 + t718) + t717)
+  let t722 := (t719 - t718)
+  let t723 := (t717 - t719)
+  let t724 := (t718 - t717)
+  let t725 := (t565 * t722)
+  let t726 := (t565 * t723)
+  let t727 := (t565 * t724)
+  let t735 := (t565 * t721)
+  let t745 := (t713 / t716)
+  let t746 := (t714 / t716)
+  let t747 := (t715 / t716)
+  let t752 := (((t680 * t747) + (t679 * t746)) + (t678 * t745))
+  let t755 := ((t680 * t746) - (t679 * t747))
+  let t758 := ((t678 * t747) - (t680 * t745))
+  let t761 := ((t679 * t745) - (t678 * t746))
+  let t762 := (t565 * t755)
+  let t763 := (t565 * t758)
+  let t764 := (t565 * t761)
+  let t772 := (t565 * t752)
+  let t785 := ((0 : α) * (t709 / t712))
+  let t786 := ((0 : α) * (t710 / t712))
+  let t787 := ((0 : α) * (t711 / t712))
+  let t789 := ((t787 + t786) + t785)
+  let t790 := (t786 - t787)
+  let t791 := (t787 - t785)
+  let t792 := (t785 - t786)
+  let t849 := (t565 * t686)
+  let t850 := (t565 * t687)
+  let t851 := (t565 * t688)
+  let t859 := (t565 * t685)
+  let t869 := (t570 * t686)
+  let t870 := (t570 * t687)
+  let t871 := (t570 * t688)
+  let t879 := (t570 * t685)
+  let t889 := (vfrom.z / t558)
+  let t890 := (vfrom.y / t558)
+  let t891 := (vfrom.x / t558)
+  let t892 := (t889 * (0 : α))
+  let t893 := (t890 * (0 : α))
+  let t894 := (t891 * (0 : α))
+  let t896 := ((t894 + t893) + t892)
+  let t897 := (t889 + (0 : α))
+  let t898 := (t890 + (0 : α))
+  let t899 := (t891 + (0 : α))
+  let t900 := (V3.length tmin sqrt ⟨t899, t898, t897⟩)
+  let t901 := (t894 - t893)
+  let t902 := (t892 - t894)
+  let t903 := (t893 - t892)
+  let t904 := (t897 / t900)
+  let t905 := (t898 / t900)
+  let t906 := (t899 / t900)
+  let t911 := (((t891 * t906) + (t890 * t905)) + (t889 * t904))
+  let t914 := ((t891 * t905) - (t890 * t906))
+  let t917 := ((t889 * t906) - (t891 * t904))
+  let t920 := ((t890 * t904) - (t889 * t905))
+  let t925 := (((t899 * t899) + (t898 * t898)) + (t897 * t897))
+  let t926 := (t889 * t889)
+  let t927 := (t890 * t890)
+  let t928 := (t891 * t891)
+  let t929 := (t890 * (1 : α))
+  let t930 := (t894 - t929)
+  let t931 := (t889 * (1 : α))
+  let t932 := (t931 - t894)
+  let t933 := (V3.length tmin sqrt ⟨t903, t932, t930⟩)
+  let t934 := (t930 / t933)
+  let t935 := (t932 / t933)
+  let t936 := (t903 / t933)
+  let t937 := (t891 * (1 : α))
+  let t938 := (t937 - t893)
+  let t939 := (t893 - t931)
+  let t940 := (V3.length tmin sqrt ⟨t939, t902, t938⟩)
+  let t941 := (t938 / t940)
+  let t942 := (t902 / t940)
+  let t943 := (t939 / t940)
+  let t944 := (t892 - t937)
+  let t945 := (t929 - t892)
+  let t946 := (V3.length tmin sqrt ⟨t945, t944, t901⟩)
+  let t947 := (t901 / t946)
+  let t948 := (t944 / t946)
+  let t949 := (t945 / t946)
+  let t950 := (t901 * t565)
+  let t951 := (t902 * t565)
+  let t952 := (t903 * t565)
+  let t956 := ((t896 * t562) - ((t952 + t951) + t950))
+  let t963 := (t896 * t565)
+  let t967 := ((t963 + (t901 * t562)) + (t952 - t951))
+  let t968 := ((t963 + (t902 * t562)) + (t950 - t952))
+  let t969 := ((t963 + (t903 * t562)) + (t951 - t950))
+  let t970 := (t901 * t570)
+  let t971 := (t902 * t570)
+  let t972 := (t903 * t570)
+  let t976 := ((t896 * t569) - ((t972 + t971) + t970))
+  let t983 := (t896 * t570)
+  let t987 := ((t983 + (t901 * t569)) + (t972 - t971))
+  let t988 := ((t983 + (t902 * t569)) + (t970 - t972))
+  let t989 := ((t983 + (t903 * t569)) + (t971 - t970))
+  let t994 := (((t906 * t906) + (t905 * t905)) + (t904 * t904))
+  let t995 := (t889 + t904)
+  let t996 := (t890 + t905)
+  let t997 := (t891 + t906)
+  let t998 := (V3.length tmin sqrt ⟨t997, t996, t995⟩)
+  let t999 := (t904 + (0 : α))
+  let t1000 := (t905 + (0 : α))
+  let t1001 := (t906 + (0 : α))
+  let t1002 := (V3.length tmin sqrt ⟨t1001, t1000, t999⟩)
+  let t1003 := (t904 * (0 : α))
+  let t1004 := (t905 * (0 : α))
+  let t1005 := (t906 * (0 : α))
+  let t1007 := ((t1005 + t1004) + t1003)
+  let t1008 := (t1005 - t1004)
+  let t1009 := (t1003 - t1005)
+  let t1010 := (t1004 - t1003)
+  let t1039 := (t999 / t1002)
+  let t1040 := (t1000 / t1002)
+  let t1041 := (t1001 / t1002)
+  let t1046 := (((t906 * t1041) + (t905 * t1040)) + (t904 * t1039))
+  let t1049 := ((t906 * t1040) - (t905 * t1041))
+  let t1052 := ((t904 * t1041) - (t906 * t1039))
+  let t1055 := ((t905 * t1039) - (t904 * t1040))
+  let t1084 := (t995 / t998)
+  let t1085 := (t996 / t998)
+  let t1086 := (t997 / t998)
+  let t1091 := (((t891 * t1086) + (t890 * t1085)) + (t889 * t1084))
+  let t1094 := ((t891 * t1085) - (t890 * t1086))
+  let t1097 := ((t889 * t1086) - (t891 * t1084))
+  let t1100 := ((t890 * t1084) - (t889 * t1085))
+  let t1157 := (t914 * t565)
+  let t1158 := (t917 * t565)
+  let t1159 := (t920 * t565)
+  let t1163 := ((t911 * t562) - ((t1159 + t1158) + t1157))
+  let t1170 := (t911 * t565)
+  let t1174 := ((t1170 + (t914 * t562)) + (t1159 - t1158))
+  let t1175 := ((t1170 + (t917 * t562)) + (t1157 - t1159))
+  let t1176 := ((t1170 + (t920 * t562)) + (t1158 - t1157))
+  let t1177 := (t914 * t570)
+  let t1178 := (t917 * t570)
+  let t1179 := (t920 * t570)
+  let t1190 := (t911 * t570)
+  let t1201 := (((t891 * t668) + (t890 * t667)) + (t889 * t666))
+  let t1202 := (t889 + t666)
+  let t1203 := (t890 + t667)
+  let t1204 := (t891 + t668)
+  let t1205 := (V3.length tmin sqrt ⟨t1204, t1203, t1202⟩)
+  let t1206 := (t1202 / t1205)
+  let t1207 := (t1203 / t1205)
+  let t1208 := (t1204 / t1205)
+  let t1227 := (((t1204 * t1204) + (t1203 * t1203)) + (t1202 * t1202))
+  let t1234 := ((t896 * t685) - (((t903 * t688) + (t902 * t687)) + (t901 * t686)))
+  let t1253 := (((t896 * t686) + (t901 * t685)) + ((t903 * t687) - (t902 * t688)))
+  let t1254 := (((t896 * t687) + (t902 * t685)) + ((t901 * t688) - (t903 * t686)))
+  let t1255 := (((t896 * t688) + (t903 * t685)) + ((t902 * t686) - (t901 * t687)))
+  let t1262 := ((t911 * t685) - (((t920 * t688) + (t917 * t687)) + (t914 * t686)))
+  let t1281 := (((t911 * t686) + (t914 * t685)) + ((t920 * t687) - (t917 * t688)))
+  let t1282 := (((t911 * t687) + (t917 * t685)) + ((t914 * t688) - (t920 * t686)))
+  let t1283 := (((t911 * t688) + (t920 * t685)) + ((t917 * t686) - (t914 * t687)))
+  let t1288 := (((t1208 * t1208) + (t1207 * t1207)) + (t1206 * t1206))
+  let t1289 := (t889 + t1206)
+  let t1290 := (t890 + t1207)
+  let t1291 := (t891 + t1208)
+  let t1292 := (V3.length tmin sqrt ⟨t1291, t1290, t1289⟩)
+  let t1293 := (t1206 + t666)
+  let t1294 := (t1207 + t667)
+  let t1295 := (t1208 + t668)
+  let t1296 := (V3.length tmin sqrt ⟨t1295, t1294, t1293⟩)
+  let t1297 := (t1206 * (0 : α))
+  let t1298 := (t1207 * (0 : α))
+  let t1299 := (t1208 * (0 : α))
+  let t1301 := ((t1299 + t1298) + t1297)
+  let t1302 := (t1299 - t1298)
+  let t1303 := (t1297 - t1299)
+  let t1304 := (t1298 - t1297)
+  let t1333 := (t1293 / t1296)
+  let t1334 := (t1294 / t1296)
+  let t1335 := (t1295 / t1296)
+  let t1340 := (((t1208 * t1335) + (t1207 * t1334)) + (t1206 * t1333))
+  let t1343 := ((t1208 * t1334) - (t1207 * t1335))
+  let t1346 := ((t1206 * t1335) - (t1208 * t1333))
+  let t1349 := ((t1207 * t1333) - (t1206 * t1334))
+  let t1378 := (t1289 / t1292)
+  let t1379 := (t1290 / t1292)
+  let t1380 := (t1291 / t1292)
+  let t1385 := (((t891 * t1380) + (t890 * t1379)) + (t889 * t1378))
+  let t1388 := ((t891 * t1379) - (t890 * t1380))
+  let t1391 := ((t889 * t1380) - (t891 * t1378))
+  let t1394 := ((t890 * t1378) - (t889 * t1379))
   if t558 = (0 : α) then
     if t559 = (0 : α) then
       if (0 : α) ≤ t562 then
@@ -498,1345 +536,1453 @@ def C10.Quat.setRotation {α : Type} [Add α] [Sub α] [Mul α] [Div α] [Neg α
         else
           ⟨t569, ⟨t570, t570, t570⟩⟩
       else
-        if t564 = (0 : α) then
-          ⟨t575, ⟨t580, t580, t580⟩⟩
-        else
-          if t583 = (0 : α) then
-            if t587 = (0 : α) then
-              ⟨(0 : α), ⟨(0 : α), (0 : α), (0 : α)⟩⟩
-            else
-              ⟨(0 : α), ⟨t590, t589, t588⟩⟩
+        if t574 < t577 then
+          if t564 = (0 : α) then
+            ⟨t582, ⟨t587, t587, t587⟩⟩
           else
-            if t592 = (0 : α) then
+            if t590 = (0 : α) then
               if t594 = (0 : α) then
-                ⟨((t562 * t597) - ((t599 + t599) + t599)), ⟨t608, t608, t608⟩⟩
+                ⟨(0 : α), ⟨(0 : α), (0 : α), (0 : α)⟩⟩
               else
-                ⟨((t562 * t612) - ((t614 + t614) + t614)), ⟨t623, t623, t623⟩⟩
+                ⟨(0 : α), ⟨t597, t596, t595⟩⟩
             else
-              if t594 = (0 : α) then
-                ⟨((t627 * t597) - ((t629 + t629) + t629)), ⟨t638, t638, t638⟩⟩
+              if t599 = (0 : α) then
+                if t601 = (0 : α) then
+                  ⟨((t562 * t604) - ((t606 + t606) + t606)), ⟨t615, t615, t615⟩⟩
+                else
+                  ⟨((t562 * t619) - ((t621 + t621) + t621)), ⟨t630, t630, t630⟩⟩
               else
-                ⟨((t627 * t612) - ((t639 + t639) + t639)), ⟨t648, t648, t648⟩⟩
+                if t601 = (0 : α) then
+                  ⟨((t634 * t604) - ((t636 + t636) + t636)), ⟨t645, t645, t645⟩⟩
+                else
+                  ⟨((t634 * t619) - ((t646 + t646) + t646)), ⟨t655, t655, t655⟩⟩
+        else
+          if t564 = (0 : α) then
+            ⟨t582, ⟨t587, t587, t587⟩⟩
+          else
+            ⟨((t569 * t569) - ((t656 + t656) + t656)), ⟨t665, t665, t665⟩⟩
     else
-      if (0 : α) ≤ t656 then
-        if t660 = (0 : α) then
+      if (0 : α) ≤ t673 then
+        if t677 = (0 : α) then
           ⟨t562, ⟨t565, t565, t565⟩⟩
         else
-          ⟨t668, ⟨t671, t670, t669⟩⟩
+          ⟨t685, ⟨t688, t687, t686⟩⟩
       else
-        if t660 = (0 : α) then
+        if t574 < t693 then
+          if t677 = (0 : α) then
+            if t562 = (0 : α) then
+              if t594 = (0 : α) then
+                ⟨(0 : α), ⟨(0 : α), (0 : α), (0 : α)⟩⟩
+              else
+                ⟨(0 : α), ⟨t597, t596, t595⟩⟩
+            else
+              if t564 = (0 : α) then
+                ⟨t582, ⟨t587, t587, t587⟩⟩
+              else
+                ⟨t698, ⟨t703, t703, t703⟩⟩
+          else
+            if t708 = (0 : α) then
+              if t594 = (0 : α) then
+                ⟨(0 : α), ⟨(0 : α), (0 : α), (0 : α)⟩⟩
+              else
+                ⟨(0 : α), ⟨t597, t596, t595⟩⟩
+            else
+              if t712 = (0 : α) then
+                if t716 = (0 : α) then
+                  ⟨((t562 * t721) - ((t727 + t726) + t725)), ⟨(((t562 * t724) + t735) + (t725 - t726)), (((t562 * t723) + t735) + (t727 - t725)), (((t562 * t722) + t735) + (t726 - t727))⟩⟩
+                else
+                  ⟨((t562 * t752) - ((t764 + t763) + t762)), ⟨(((t562 * t761) + t772) + (t762 - t763)), (((t562 * t758) + t772) + (t764 - t762)), (((t562 * t755) + t772) + (t763 - t764))⟩⟩
+              else
+                if t716 = (0 : α) then
+                  ⟨((t789 * t721) - (((t792 * t724) + (t791 * t723)) + (t790 * t722))), ⟨(((t789 * t724) + (t792 * t721)) + ((t791 * t722) - (t790 * t723))), (((t789 * t723) + (t791 * t721)) + ((t790 * t724) - (t792 * t722))), (((t789 * t722) + (t790 * t721)) + ((t792 * t723) - (t791 * t724)))⟩⟩
+                else
+                  ⟨((t789 * t752) - (((t792 * t761) + (t791 * t758)) + (t790 * t755))), ⟨(((t789 * t761) + (t792 * t752)) + ((t791 * t755) - (t790 * t758))), (((t789 * t758) + (t791 * t752)) + ((t790 * t761) - (t792 * t755))), (((t789 * t755) + (t790 * t752)) + ((t792 * t758) - (t791 * t761)))⟩⟩
+        else
           if t562 = (0 : α) then
-            if t587 = (0 : α) then
+            if t594 = (0 : α) then
               ⟨(0 : α), ⟨(0 : α), (0 : α), (0 : α)⟩⟩
             else
-              ⟨(0 : α), ⟨t590, t589, t588⟩⟩
+              ⟨(0 : α), ⟨t597, t596, t595⟩⟩
           else
             if t564 = (0 : α) then
-              ⟨t575, ⟨t580, t580, t580⟩⟩
-            else
-              ⟨((t569 * t562) - ((t672 + t672) + t672)), ⟨t681, t681, t681⟩⟩
-        else
-          if t686 = (0 : α) then
-            if t587 = (0 : α) then
-              ⟨(0 : α), ⟨(0 : α), (0 : α), (0 : α)⟩⟩
-            else
-              ⟨(0 : α), ⟨t590, t589, t588⟩⟩
-          else
-            if t690 = (0 : α) then
-              if t694 = (0 : α) then
-                ⟨((t562 * t699) - ((t705 + t704) + t703)), ⟨(((t562 * t702) + t713) + (t703 - t704)), (((t562 * t701) + t713) + (t705 - t703)), (((t562 * t700) + t713) + (t704 - t705))⟩⟩
+              if t677 = (0 : α) then
+                ⟨t582, ⟨t587, t587, t587⟩⟩
               else
-                ⟨((t562 * t730) - ((t742 + t741) + t740)), ⟨(((t562 * t739) + t750) + (t740 - t741)), (((t562 * t736) + t750) + (t742 - t740)), (((t562 * t733) + t750) + (t741 - t742))⟩⟩
+                ⟨((t562 * t685) - ((t851 + t850) + t849)), ⟨(((t562 * t688) + t859) + (t849 - t850)), (((t562 * t687) + t859) + (t851 - t849)), (((t562 * t686) + t859) + (t850 - t851))⟩⟩
             else
-              if t694 = (0 : α) then
-                ⟨((t767 * t699) - (((t770 * t702) + (t769 * t701)) + (t768 * t700))), ⟨(((t767 * t702) + (t770 * t699)) + ((t769 * t700) - (t768 * t701))), (((t767 * t701) + (t769 * t699)) + ((t768 * t702) - (t770 * t700))), (((t767 * t700) + (t768 * t699)) + ((t770 * t701) - (t769 * t702)))⟩⟩
+              if t677 = (0 : α) then
+                ⟨t698, ⟨t703, t703, t703⟩⟩
               else
-                ⟨((t767 * t730) - (((t770 * t739) + (t769 * t736)) + (t768 * t733))), ⟨(((t767 * t739) + (t770 * t730)) + ((t769 * t733) - (t768 * t736))), (((t767 * t736) + (t769 * t730)) + ((t768 * t739) - (t770 * t733))), (((t767 * t733) + (t768 * t730)) + ((t770 * t736) - (t769 * t739)))⟩⟩
+                ⟨((t569 * t685) - ((t871 + t870) + t869)), ⟨(((t569 * t688) + t879) + (t869 - t870)), (((t569 * t687) + t879) + (t871 - t869)), (((t569 * t686) + t879) + (t870 - t871))⟩⟩
   else
     if t559 = (0 : α) then
-      if (0 : α) ≤ t834 then
-        if t838 = (0 : α) then
-          ⟨t834, ⟨t841, t840, t839⟩⟩
+      if (0 : α) ≤ t896 then
+        if t900 = (0 : α) then
+          ⟨t896, ⟨t903, t902, t901⟩⟩
         else
-          ⟨t849, ⟨t858, t855, t852⟩⟩
+          ⟨t911, ⟨t920, t917, t914⟩⟩
       else
-        if t838 = (0 : α) then
-          if t562 = (0 : α) then
-            if t861 ≤ t860 then
-              if t861 ≤ t859 then
-                if t866 = (0 : α) then
-                  ⟨(0 : α), ⟨(0 : α), (0 : α), (0 : α)⟩⟩
+        if t574 < t925 then
+          if t900 = (0 : α) then
+            if t562 = (0 : α) then
+              if t928 ≤ t927 then
+                if t928 ≤ t926 then
+                  if t933 = (0 : α) then
+                    ⟨(0 : α), ⟨(0 : α), (0 : α), (0 : α)⟩⟩
+                  else
+                    ⟨(0 : α), ⟨t936, t935, t934⟩⟩
                 else
-                  ⟨(0 : α), ⟨t869, t868, t867⟩⟩
+                  if t927 ≤ t926 then
+                    if t940 = (0 : α) then
+                      ⟨(0 : α), ⟨(0 : α), (0 : α), (0 : α)⟩⟩
+                    else
+                      ⟨(0 : α), ⟨t943, t942, t941⟩⟩
+                  else
+                    if t946 = (0 : α) then
+                      ⟨(0 : α), ⟨(0 : α), (0 : α), (0 : α)⟩⟩
+                    else
+                      ⟨(0 : α), ⟨t949, t948, t947⟩⟩
               else
-                if t860 ≤ t859 then
-                  if t873 = (0 : α) then
+                if t927 ≤ t926 then
+                  if t940 = (0 : α) then
                     ⟨(0 : α), ⟨(0 : α), (0 : α), (0 : α)⟩⟩
                   else
-                    ⟨(0 : α), ⟨t876, t875, t874⟩⟩
+                    ⟨(0 : α), ⟨t943, t942, t941⟩⟩
                 else
-                  if t879 = (0 : α) then
+                  if t946 = (0 : α) then
                     ⟨(0 : α), ⟨(0 : α), (0 : α), (0 : α)⟩⟩
                   else
-                    ⟨(0 : α), ⟨t882, t881, t880⟩⟩
+                    ⟨(0 : α), ⟨t949, t948, t947⟩⟩
             else
-              if t860 ≤ t859 then
-                if t873 = (0 : α) then
-                  ⟨(0 : α), ⟨(0 : α), (0 : α), (0 : α)⟩⟩
-                else
-                  ⟨(0 : α), ⟨t876, t875, t874⟩⟩
+              if t564 = (0 : α) then
+                ⟨t956, ⟨t969, t968, t967⟩⟩
               else
-                if t879 = (0 : α) then
-                  ⟨(0 : α), ⟨(0 : α), (0 : α), (0 : α)⟩⟩
-                else
-                  ⟨(0 : α), ⟨t882, t881, t880⟩⟩
+                ⟨t976, ⟨t989, t988, t987⟩⟩
           else
-            if t564 = (0 : α) then
-              ⟨t889, ⟨t902, t901, t900⟩⟩
+            if t994 = (0 : α) then
+              if t928 ≤ t927 then
+                if t928 ≤ t926 then
+                  if t933 = (0 : α) then
+                    ⟨(0 : α), ⟨(0 : α), (0 : α), (0 : α)⟩⟩
+                  else
+                    ⟨(0 : α), ⟨t936, t935, t934⟩⟩
+                else
+                  if t927 ≤ t926 then
+                    if t940 = (0 : α) then
+                      ⟨(0 : α), ⟨(0 : α), (0 : α), (0 : α)⟩⟩
+                    else
+                      ⟨(0 : α), ⟨t943, t942, t941⟩⟩
+                  else
+                    if t946 = (0 : α) then
+                      ⟨(0 : α), ⟨(0 : α), (0 : α), (0 : α)⟩⟩
+                    else
+                      ⟨(0 : α), ⟨t949, t948, t947⟩⟩
+              else
+                if t927 ≤ t926 then
+                  if t940 = (0 : α) then
+                    ⟨(0 : α), ⟨(0 : α), (0 : α), (0 : α)⟩⟩
+                  else
+                    ⟨(0 : α), ⟨t943, t942, t941⟩⟩
+                else
+                  if t946 = (0 : α) then
+                    ⟨(0 : α), ⟨(0 : α), (0 : α), (0 : α)⟩⟩
+                  else
+                    ⟨(0 : α), ⟨t949, t948, t947⟩⟩
             else
-              ⟨((t834 * t569) - ((t905 + t904) + t903)), ⟨((t916 + (t841 * t569)) + (t904 - t903)), ((t916 + (t840 * t569)) + (t903 - t905)), ((t916 + (t839 * t569)) + (t905 - t904))⟩⟩
+              if t998 = (0 : α) then
+                if t1002 = (0 : α) then
+                  ⟨((t896 * t1007) - (((t903 * t1010) + (t902 * t1009)) + (t901 * t1008))), ⟨(((t896 * t1010) + (t903 * t1007)) + ((t902 * t1008) - (t901 * t1009))), (((t896 * t1009) + (t902 * t1007)) + ((t901 * t1010) - (t903 * t1008))), (((t896 * t1008) + (t901 * t1007)) + ((t903 * t1009) - (t902 * t1010)))⟩⟩
+                else
+                  ⟨((t896 * t1046) - (((t903 * t1055) + (t902 * t1052)) + (t901 * t1049))), ⟨(((t896 * t1055) + (t903 * t1046)) + ((t902 * t1049) - (t901 * t1052))), (((t896 * t1052) + (t902 * t1046)) + ((t901 * t1055) - (t903 * t1049))), (((t896 * t1049) + (t901 * t1046)) + ((t903 * t1052) - (t902 * t1055)))⟩⟩
+              else
+                if t1002 = (0 : α) then
+                  ⟨((t1091 * t1007) - (((t1100 * t1010) + (t1097 * t1009)) + (t1094 * t1008))), ⟨(((t1091 * t1010) + (t1100 * t1007)) + ((t1097 * t1008) - (t1094 * t1009))), (((t1091 * t1009) + (t1097 * t1007)) + ((t1094 * t1010) - (t1100 * t1008))), (((t1091 * t1008) + (t1094 * t1007)) + ((t1100 * t1009) - (t1097 * t1010)))⟩⟩
+                else
+                  ⟨((t1091 * t1046) - (((t1100 * t1055) + (t1097 * t1052)) + (t1094 * t1049))), ⟨(((t1091 * t1055) + (t1100 * t1046)) + ((t1097 * t1049) - (t1094 * t1052))), (((t1091 * t1052) + (t1097 * t1046)) + ((t1094 * t1055) - (t1100 * t1049))), (((t1091 * t1049) + (t1094 * t1046)) + ((t1100 * t1052) - (t1097 * t1055)))⟩⟩
         else
-          if t927 = (0 : α) then
-            if t861 ≤ t860 then
-              if t861 ≤ t859 then
-                if t866 = (0 : α) then
+          if t562 = (0 : α) then
+            if t928 ≤ t927 then
+              if t928 ≤ t926 then
+                if t933 = (0 : α) then
                   ⟨(0 : α), ⟨(0 : α), (0 : α), (0 : α)⟩⟩
                 else
-                  ⟨(0 : α), ⟨t869, t868, t867⟩⟩
+                  ⟨(0 : α), ⟨t936, t935, t934⟩⟩
               else
-                if t860 ≤ t859 then
-                  if t873 = (0 : α) then
+                if t927 ≤ t926 then
+                  if t940 = (0 : α) then
                     ⟨(0 : α), ⟨(0 : α), (0 : α), (0 : α)⟩⟩
                   else
-                    ⟨(0 : α), ⟨t876, t875, t874⟩⟩
+                    ⟨(0 : α), ⟨t943, t942, t941⟩⟩
                 else
-                  if t879 = (0 : α) then
+                  if t946 = (0 : α) then
                     ⟨(0 : α), ⟨(0 : α), (0 : α), (0 : α)⟩⟩
                   else
-                    ⟨(0 : α), ⟨t882, t881, t880⟩⟩
+                    ⟨(0 : α), ⟨t949, t948, t947⟩⟩
             else
-              if t860 ≤ t859 then
-                if t873 = (0 : α) then
+              if t927 ≤ t926 then
+                if t940 = (0 : α) then
                   ⟨(0 : α), ⟨(0 : α), (0 : α), (0 : α)⟩⟩
                 else
-                  ⟨(0 : α), ⟨t876, t875, t874⟩⟩
+                  ⟨(0 : α), ⟨t943, t942, t941⟩⟩
               else
-                if t879 = (0 : α) then
+                if t946 = (0 : α) then
                   ⟨(0 : α), ⟨(0 : α), (0 : α), (0 : α)⟩⟩
                 else
-                  ⟨(0 : α), ⟨t882, t881, t880⟩⟩
+                  ⟨(0 : α), ⟨t949, t948, t947⟩⟩
           else
-            if t931 = (0 : α) then
-              if t935 = (0 : α) then
-                ⟨((t834 * t940) - (((t841 * t943) + (t840 * t942)) + (t839 * t941))), ⟨(((t834 * t943) + (t841 * t940)) + ((t840 * t941) - (t839 * t942))), (((t834 * t942) + (t840 * t940)) + ((t839 * t943) - (t841 * t941))), (((t834 * t941) + (t839 * t940)) + ((t841 * t942) - (t840 * t943)))⟩⟩
+            if t900 = (0 : α) then
+              if t564 = (0 : α) then
+                ⟨t956, ⟨t969, t968, t967⟩⟩
               else
-                ⟨((t834 * t979) - (((t841 * t988) + (t840 * t985)) + (t839 * t982))), ⟨(((t834 * t988) + (t841 * t979)) + ((t840 * t982) - (t839 * t985))), (((t834 * t985) + (t840 * t979)) + ((t839 * t988) - (t841 * t982))), (((t834 * t982) + (t839 * t979)) + ((t841 * t985) - (t840 * t988)))⟩⟩
+                ⟨t976, ⟨t989, t988, t987⟩⟩
             else
-              if t935 = (0 : α) then
-                ⟨((t1024 * t940) - (((t1033 * t943) + (t1030 * t942)) + (t1027 * t941))), ⟨(((t1024 * t943) + (t1033 * t940)) + ((t1030 * t941) - (t1027 * t942))), (((t1024 * t942) + (t1030 * t940)) + ((t1027 * t943) - (t1033 * t941))), (((t1024 * t941) + (t1027 * t940)) + ((t1033 * t942) - (t1030 * t943)))⟩⟩
+              if t564 = (0 : α) then
+                ⟨t1163, ⟨t1176, t1175, t1174⟩⟩
               else
-                ⟨((t1024 * t979) - (((t1033 * t988) + (t1030 * t985)) + (t1027 * t982))), ⟨(((t1024 * t988) + (t1033 * t979)) + ((t1030 * t982) - (t1027 * t985))), (((t1024 * t985) + (t1030 * t979)) + ((t1027 * t988) - (t1033 * t982))), (((t1024 * t982) + (t1027 * t979)) + ((t1033 * t985) - (t1030 * t988)))⟩⟩
+                ⟨((t911 * t569) - ((t1179 + t1178) + t1177)), ⟨((t1190 + (t920 * t569)) + (t1178 - t1177)), ((t1190 + (t917 * t569)) + (t1177 - t1179)), ((t1190 + (t914 * t569)) + (t1179 - t1178))⟩⟩
     else
-      if (0 : α) ≤ t1094 then
-        if t1098 = (0 : α) then
-          ⟨t834, ⟨t841, t840, t839⟩⟩
+      if (0 : α) ≤ t1201 then
+        if t1205 = (0 : α) then
+          ⟨t896, ⟨t903, t902, t901⟩⟩
         else
-          ⟨(((t829 * t1101) + (t828 * t1100)) + (t827 * t1099)), ⟨((t828 * t1099) - (t827 * t1100)), ((t827 * t1101) - (t829 * t1099)), ((t829 * t1100) - (t828 * t1101))⟩⟩
+          ⟨(((t891 * t1208) + (t890 * t1207)) + (t889 * t1206)), ⟨((t890 * t1206) - (t889 * t1207)), ((t889 * t1208) - (t891 * t1206)), ((t891 * t1207) - (t890 * t1208))⟩⟩
       else
-        if t1098 = (0 : α) then
-          if t562 = (0 : α) then
-            if t861 ≤ t860 then
-              if t861 ≤ t859 then
-                if t866 = (0 : α) then
-                  ⟨(0 : α), ⟨(0 : α), (0 : α), (0 : α)⟩⟩
+        if t574 < t1227 then
+          if t1205 = (0 : α) then
+            if t562 = (0 : α) then
+              if t928 ≤ t927 then
+                if t928 ≤ t926 then
+                  if t933 = (0 : α) then
+                    ⟨(0 : α), ⟨(0 : α), (0 : α), (0 : α)⟩⟩
+                  else
+                    ⟨(0 : α), ⟨t936, t935, t934⟩⟩
                 else
-                  ⟨(0 : α), ⟨t869, t868, t867⟩⟩
+                  if t927 ≤ t926 then
+                    if t940 = (0 : α) then
+                      ⟨(0 : α), ⟨(0 : α), (0 : α), (0 : α)⟩⟩
+                    else
+                      ⟨(0 : α), ⟨t943, t942, t941⟩⟩
+                  else
+                    if t946 = (0 : α) then
+                      ⟨(0 : α), ⟨(0 : α), (0 : α), (0 : α)⟩⟩
+                    else
+                      ⟨(0 : α), ⟨t949, t948, t947⟩⟩
               else
-                if t860 ≤ t859 then
-                  if t873 = (0 : α) then
+                if t927 ≤ t926 then
+                  if t940 = (0 : α) then
                     ⟨(0 : α), ⟨(0 : α), (0 : α), (0 : α)⟩⟩
                   else
-                    ⟨(0 : α), ⟨t876, t875, t874⟩⟩
+                    ⟨(0 : α), ⟨t943, t942, t941⟩⟩
                 else
-                  if t879 = (0 : α) then
+                  if t946 = (0 : α) then
                     ⟨(0 : α), ⟨(0 : α), (0 : α), (0 : α)⟩⟩
                   else
-                    ⟨(0 : α), ⟨t882, t881, t880⟩⟩
+                    ⟨(0 : α), ⟨t949, t948, t947⟩⟩
             else
-              if t860 ≤ t859 then
-                if t873 = (0 : α) then
-                  ⟨(0 : α), ⟨(0 : α), (0 : α), (0 : α)⟩⟩
+              if t900 = (0 : α) then
+                if t677 = (0 : α) then
+                  ⟨t956, ⟨t969, t968, t967⟩⟩
                 else
-                  ⟨(0 : α), ⟨t876, t875, t874⟩⟩
+                  ⟨t1234, ⟨t1255, t1254, t1253⟩⟩
               else
-                if t879 = (0 : α) then
-                  ⟨(0 : α), ⟨(0 : α), (0 : α), (0 : α)⟩⟩
+                if t677 = (0 : α) then
+                  ⟨t1163, ⟨t1176, t1175, t1174⟩⟩
                 else
-                  ⟨(0 : α), ⟨t882, t881, t880⟩⟩
+                  ⟨t1262, ⟨t1283, t1282, t1281⟩⟩
           else
-            if t838 = (0 : α) then
-              if t660 = (0 : α) then
-                ⟨t889, ⟨t902, t901, t900⟩⟩
+            if t1288 = (0 : α) then
+              if t928 ≤ t927 then
+                if t928 ≤ t926 then
+                  if t933 = (0 : α) then
+                    ⟨(0 : α), ⟨(0 : α), (0 : α), (0 : α)⟩⟩
+                  else
+                    ⟨(0 : α), ⟨t936, t935, t934⟩⟩
+                else
+                  if t927 ≤ t926 then
+                    if t940 = (0 : α) then
+                      ⟨(0 : α), ⟨(0 : α), (0 : α), (0 : α)⟩⟩
+                    else
+                      ⟨(0 : α), ⟨t943, t942, t941⟩⟩
+                  else
+                    if t946 = (0 : α) then
+                      ⟨(0 : α), ⟨(0 : α), (0 : α), (0 : α)⟩⟩
+                    else
+                      ⟨(0 : α), ⟨t949, t948, t947⟩⟩
               else
-                ⟨((t834 * t668) - (((t841 * t671) + (t840 * t670)) + (t839 * t669))), ⟨(((t834 * t671) + (t841 * t668)) + ((t840 * t669) - (t839 * t670))), (((t834 * t670) + (t840 * t668)) + ((t839 * t671) - (t841 * t669))), (((t834 * t669) + (t839 * t668)) + ((t841 * t670) - (t840 * t671)))⟩⟩
+                if t927 ≤ t926 then
+                  if t940 = (0 : α) then
+                    ⟨(0 : α), ⟨(0 : α), (0 : α), (0 : α)⟩⟩
+                  else
+                    ⟨(0 : α), ⟨t943, t942, t941⟩⟩
+                else
+                  if t946 = (0 : α) then
+                    ⟨(0 : α), ⟨(0 : α), (0 : α), (0 : α)⟩⟩
+                  else
+                    ⟨(0 : α), ⟨t949, t948, t947⟩⟩
             else
-              if t660 = (0 : α) then
-                ⟨((t849 * t562) - ((t1146 + t1145) + t1144)), ⟨((t1157 + (t858 * t562)) + (t1145 - t1144)), ((t1157 + (t855 * t562)) + (t1144 - t1146)), ((t1157 + (t852 * t562)) + (t1146 - t1145))⟩⟩
+              if t1292 = (0 : α) then
+                if t1296 = (0 : α) then
+                  ⟨((t896 * t1301) - (((t903 * t1304) + (t902 * t1303)) + (t901 * t1302))), ⟨(((t896 * t1304) + (t903 * t1301)) + ((t902 * t1302) - (t901 * t1303))), (((t896 * t1303) + (t902 * t1301)) + ((t901 * t1304) - (t903 * t1302))), (((t896 * t1302) + (t901 * t1301)) + ((t903 * t1303) - (t902 * t1304)))⟩⟩
+                else
+                  ⟨((t896 * t1340) - (((t903 * t1349) + (t902 * t1346)) + (t901 * t1343))), ⟨(((t896 * t1349) + (t903 * t1340)) + ((t902 * t1343) - (t901 * t1346))), (((t896 * t1346) + (t902 * t1340)) + ((t901 * t1349) - (t903 * t1343))), (((t896 * t1343) + (t901 * t1340)) + ((t903 * t1346) - (t902 * t1349)))⟩⟩
               else
-                ⟨((t849 * t668) - (((t858 * t671) + (t855 * t670)) + (t852 * t669))), ⟨(((t849 * t671) + (t858 * t668)) + ((t855 * t669) - (t852 * t670))), (((t849 * t670) + (t855 * t668)) + ((t852 * t671) - (t858 * t669))), (((t849 * t669) + (t852 * t668)) + ((t858 * t670) - (t855 * t671)))⟩⟩
+                if t1296 = (0 : α) then
+                  ⟨((t1385 * t1301) - (((t1394 * t1304) + (t1391 * t1303)) + (t1388 * t1302))), ⟨(((t1385 * t1304) + (t1394 * t1301)) + ((t1391 * t1302) - (t1388 * t1303))), (((t1385 * t1303) + (t1391 * t1301)) + ((t1388 * t1304) - (t1394 * t1302))), (((t1385 * t1302) + (t1388 * t1301)) + ((t1394 * t1303) - (t1391 * t1304)))⟩⟩
+                else
+                  ⟨((t1385 * t1340) - (((t1394 * t1349) + (t1391 * t1346)) + (t1388 * t1343))), ⟨(((t1385 * t1349) + (t1394 * t1340)) + ((t1391 * t1343) - (t1388 * t1346))), (((t1385 * t1346) + (t1391 * t1340)) + ((t1388 * t1349) - (t1394 * t1343))), (((t1385 * t1343) + (t1388 * t1340)) + ((t1394 * t1346) - (t1391 * t1349)))⟩⟩
         else
-          if t1196 = (0 : α) then
-            if t861 ≤ t860 then
-              if t861 ≤ t859 then
-                if t866 = (0 : α) then
+          if t562 = (0 : α) then
+            if t928 ≤ t927 then
+              if t928 ≤ t926 then
+                if t933 = (0 : α) then
                   ⟨(0 : α), ⟨(0 : α), (0 : α), (0 : α)⟩⟩
                 else
-                  ⟨(0 : α), ⟨t869, t868, t867⟩⟩
+                  ⟨(0 : α), ⟨t936, t935, t934⟩⟩
               else
-                if t860 ≤ t859 then
-                  if t873 = (0 : α) then
+                if t927 ≤ t926 then
+                  if t940 = (0 : α) then
                     ⟨(0 : α), ⟨(0 : α), (0 : α), (0 : α)⟩⟩
                   else
-                    ⟨(0 : α), ⟨t876, t875, t874⟩⟩
+                    ⟨(0 : α), ⟨t943, t942, t941⟩⟩
                 else
-                  if t879 = (0 : α) then
+                  if t946 = (0 : α) then
                     ⟨(0 : α), ⟨(0 : α), (0 : α), (0 : α)⟩⟩
                   else
-                    ⟨(0 : α), ⟨t882, t881, t880⟩⟩
+                    ⟨(0 : α), ⟨t949, t948, t947⟩⟩
             else
-              if t860 ≤ t859 then
-                if t873 = (0 : α) then
+              if t927 ≤ t926 then
+                if t940 = (0 : α) then
                   ⟨(0 : α), ⟨(0 : α), (0 : α), (0 : α)⟩⟩
                 else
-                  ⟨(0 : α), ⟨t876, t875, t874⟩⟩
+                  ⟨(0 : α), ⟨t943, t942, t941⟩⟩
               else
-                if t879 = (0 : α) then
+                if t946 = (0 : α) then
                   ⟨(0 : α), ⟨(0 : α), (0 : α), (0 : α)⟩⟩
                 else
-                  ⟨(0 : α), ⟨t882, t881, t880⟩⟩
+                  ⟨(0 : α), ⟨t949, t948, t947⟩⟩
           else
-            if t1200 = (0 : α) then
-              if t1204 = (0 : α) then
-                ⟨((t834 * t1209) - (((t841 * t1212) + (t840 * t1211)) + (t839 * t1210))), ⟨(((t834 * t1212) + (t841 * t1209)) + ((t840 * t1210) - (t839 * t1211))), (((t834 * t1211) + (t840 * t1209)) + ((t839 * t1212) - (t841 * t1210))), (((t834 * t1210) + (t839 * t1209)) + ((t841 * t1211) - (t840 * t1212)))⟩⟩
+            if t900 = (0 : α) then
+              if t677 = (0 : α) then
+                ⟨t956, ⟨t969, t968, t967⟩⟩
               else
-                ⟨((t834 * t1248) - (((t841 * t1257) + (t840 * t1254)) + (t839 * t1251))), ⟨(((t834 * t1257) + (t841 * t1248)) + ((t840 * t1251) - (t839 * t1254))), (((t834 * t1254) + (t840 * t1248)) + ((t839 * t1257) - (t841 * t1251))), (((t834 * t1251) + (t839 * t1248)) + ((t841 * t1254) - (t840 * t1257)))⟩⟩
+                ⟨t1234, ⟨t1255, t1254, t1253⟩⟩
             else
-              if t1204 = (0 : α) then
-                ⟨((t1293 * t1209) - (((t1302 * t1212) + (t1299 * t1211)) + (t1296 * t1210))), ⟨(((t1293 * t1212) + (t1302 * t1209)) + ((t1299 * t1210) - (t1296 * t1211))), (((t1293 * t1211) + (t1299 * t1209)) + ((t1296 * t1212) - (t1302 * t1210))), (((t1293 * t1210) + (t1296 * t1209)) + ((t1302 * t1211) - (t1299 * t1212)))⟩⟩
+              if t677 = (0 : α) then
+                ⟨t1163, ⟨t1176, t1175, t1174⟩⟩
               else
-                ⟨((t1293 * t1248) - (((t1302 * t1257) + (t1299 * t1254)) + (t1296 * t1251))), ⟨(((t1293 * t1257) + (t1302 * t1248)) + ((t1299 * t1251) - (t1296 * t1254))), (((t1293 * t1254) + (t1299 * t1248)) + ((t1296 * t1257) - (t1302 * t1251))), (((t1293 * t1251) + (t1296 * t1248)) + ((t1302 * t1254) - (t1299 * t1257)))⟩⟩
+                ⟨t1262, ⟨t1283, t1282, t1281⟩⟩
 
 /-- extracted from the C++ template at T = Sym; 2 path(s) -/
 def C10.sinx_over_x {α : Type} [Mul α] [Div α] [LT α] [DecidableLT α] [OfNat α 1] (teps : α) (sin : α → α) (x : α) : α :=
-  let t1361 := (x * x)
-  if t1361 < teps then
+  let t1452 := (x * x)
+  if t1452 < teps then
     (1 : α)
   else
     ((sin x) / x)
 
 /-- extracted from the C++ template at T = Sym; 1 path(s) -/
 def C10.Quat.angle4D {α : Type} [Add α] [Sub α] [Mul α] [OfNat α 2] (sqrt : α → α) (atan2 : α → α → α) (q1 : Quat α) (q2 : Quat α) : α :=
-  let t1372 := (q1.v.z - q2.v.z)
-  let t1373 := (q1.v.y - q2.v.y)
-  let t1374 := (q1.v.x - q2.v.x)
-  let t1375 := (q1.r - q2.r)
-  let t1384 := (q1.v.z + q2.v.z)
-  let t1385 := (q1.v.y + q2.v.y)
-  let t1386 := (q1.v.x + q2.v.x)
-  let t1387 := (q1.r + q2.r)
-  ((2 : α) * (atan2 (sqrt ((t1375 * t1375) + (((t1374 * t1374) + (t1373 * t1373)) + (t1372 * t1372)))) (sqrt ((t1387 * t1387) + (((t1386 * t1386) + (t1385 * t1385)) + (t1384 * t1384))))))
+  let t1463 := (q1.v.z - q2.v.z)
+  let t1464 := (q1.v.y - q2.v.y)
+  let t1465 := (q1.v.x - q2.v.x)
+  let t1466 := (q1.r - q2.r)
+  let t1475 := (q1.v.z + q2.v.z)
+  let t1476 := (q1.v.y + q2.v.y)
+  let t1477 := (q1.v.x + q2.v.x)
+  let t1478 := (q1.r + q2.r)
+  ((2 : α) * (atan2 (sqrt ((t1466 * t1466) + (((t1465 * t1465) + (t1464 * t1464)) + (t1463 * t1463)))) (sqrt ((t1478 * t1478) + (((t1477 * t1477) + (t1476 * t1476)) + (t1475 * t1475))))))
 
 /-- extracted from the C++ template at T = Sym; 16 path(s) -/
 def C10.Quat.slerp {α : Type} [Add α] [Sub α] [Mul α] [Div α] [LT α] [DecidableLT α] [DecidableEq α] [OfNat α 0] [OfNat α 1] [OfNat α 2] (teps : α) (sqrt : α → α) (sin : α → α) (atan2 : α → α → α) (q1 : Quat α) (q2 : Quat α) (t : α) : (Quat α) :=
-  let t1372 := (q1.v.z - q2.v.z)
-  let t1373 := (q1.v.y - q2.v.y)
-  let t1374 := (q1.v.x - q2.v.x)
-  let t1375 := (q1.r - q2.r)
-  let t1384 := (q1.v.z + q2.v.z)
-  let t1385 := (q1.v.y + q2.v.y)
-  let t1386 := (q1.v.x + q2.v.x)
-  let t1387 := (q1.r + q2.r)
-  let t1397 := ((2 : α) * (atan2 (sqrt ((t1375 * t1375) + (((t1374 * t1374) + (t1373 * t1373)) + (t1372 * t1372)))) (sqrt ((t1387 * t1387) + (((t1386 * t1386) + (t1385 * t1385)) + (t1384 * t1384))))))
-  let t1399 := ((1 : α) - t)
-  let t1400 := (t1397 * t1397)
-  let t1401 := (t * t1397)
-  let t1402 := (t1401 * t1401)
-  let t1403 := ((1 : α) / (1 : α))
-  let t1404 := (t1403 * t)
-  let t1405 := (q2.v.z * t1404)
-  let t1406 := (q2.v.y * t1404)
-  let t1407 := (q2.v.x * t1404)
-  let t1408 := (q2.r * t1404)
-  let t1409 := (t1399 * t1397)
-  let t1410 := (t1409 * t1409)
-  let t1411 := (t1403 * t1399)
-  let t1412 := (q1.v.z * t1411)
-  let t1413 := (q1.v.y * t1411)
-  let t1414 := (q1.v.x * t1411)
-  let t1415 := (q1.r * t1411)
-  let t1416 := (t1412 + t1405)
-  let t1417 := (t1413 + t1406)
-  let t1418 := (t1414 + t1407)
-  let t1419 := (t1415 + t1408)
-  let t1427 := (sqrt ((t1419 * t1419) + (((t1418 * t1418) + (t1417 * t1417)) + (t1416 * t1416))))
-  let t1433 := ((sin t1409) / t1409)
-  let t1435 := ((t1433 / (1 : α)) * t1399)
-  let t1436 := (q1.v.z * t1435)
-  let t1437 := (q1.v.y * t1435)
-  let t1438 := (q1.v.x * t1435)
-  let t1439 := (q1.r * t1435)
-  let t1440 := (t1436 + t1405)
-  let t1441 := (t1437 + t1406)
-  let t1442 := (t1438 + t1407)
-  let t1443 := (t1439 + t1408)
-  let t1451 := (sqrt ((t1443 * t1443) + (((t1442 * t1442) + (t1441 * t1441)) + (t1440 * t1440))))
-  let t1457 := ((sin t1401) / t1401)
-  let t1459 := ((t1457 / (1 : α)) * t)
-  let t1460 := (q2.v.z * t1459)
-  let t1461 := (q2.v.y * t1459)
-  let t1462 := (q2.v.x * t1459)
-  let t1463 := (q2.r * t1459)
-  let t1464 := (t1412 + t1460)
-  let t1465 := (t1413 + t1461)
-  let t1466 := (t1414 + t1462)
-  let t1467 := (t1415 + t1463)
-  let t1475 := (sqrt ((t1467 * t1467) + (((t1466 * t1466) + (t1465 * t1465)) + (t1464 * t1464))))
-  let t1480 := (t1436 + t1460)
-  let t1481 := (t1437 + t1461)
-  let t1482 := (t1438 + t1462)
-  let t1483 := (t1439 + t1463)
-  let t1491 := (sqrt ((t1483 * t1483) + (((t1482 * t1482) + (t1481 * t1481)) + (t1480 * t1480))))
-  let t1497 := ((sin t1397) / t1397)
-  let t1498 := ((1 : α) / t1497)
-  let t1499 := (t1498 * t)
-  let t1500 := (q2.v.z * t1499)
-  let t1501 := (q2.v.y * t1499)
-  let t1502 := (q2.v.x * t1499)
-  let t1503 := (q2.r * t1499)
-  let t1504 := (t1498 * t1399)
-  let t1505 := (q1.v.z * t1504)
-  let t1506 := (q1.v.y * t1504)
-  let t1507 := (q1.v.x * t1504)
-  let t1508 := (q1.r * t1504)
-  let t1509 := (t1505 + t1500)
-  let t1510 := (t1506 + t1501)
-  let t1511 := (t1507 + t1502)
-  let t1512 := (t1508 + t1503)
-  let t1520 := (sqrt ((t1512 * t1512) + (((t1511 * t1511) + (t1510 * t1510)) + (t1509 * t1509))))
-  let t1526 := ((t1433 / t1497) * t1399)
+  let t1463 := (q1.v.z - q2.v.z)
+  let t1464 := (q1.v.y - q2.v.y)
+  let t1465 := (q1.v.x - q2.v.x)
+  let t1466 := (q1.r - q2.r)
+  let t1475 := (q1.v.z + q2.v.z)
+  let t1476 := (q1.v.y + q2.v.y)
+  let t1477 := (q1.v.x + q2.v.x)
+  let t1478 := (q1.r + q2.r)
+  let t1488 := ((2 : α) * (atan2 (sqrt ((t1466 * t1466) + (((t1465 * t1465) + (t1464 * t1464)) + (t1463 * t1463)))) (sqrt ((t1478 * t1478) + (((t1477 * t1477) + (t1476 * t1476)) + (t1475 * t1475))))))
+  let t1490 := ((1 : α) - t)
+  let t1491 := (t1488 * t1488)
+  let t1492 := (t * t1488)
+  let t1493 := (t1492 * t1492)
+  let t1494 := ((1 : α) / (1 : α))
+  let t1495 := (t1494 * t)
+  let t1496 := (q2.v.z * t1495)
+  let t1497 := (q2.v.y * t1495)
+  let t1498 := (q2.v.x * t1495)
+  let t1499 := (q2.r * t1495)
+  let t1500 := (t1490 * t1488)
+  let t1501 := (t1500 * t1500)
+  let t1502 := (t1494 * t1490)
+  let t1503 := (q1.v.z * t1502)
+  let t1504 := (q1.v.y * t1502)
+  let t1505 := (q1.v.x * t1502)
+  let t1506 := (q1.r * t1502)
+  let t1507 := (t1503 + t1496)
+  let t1508 := (t1504 + t1497)
+  let t1509 := (t1505 + t1498)
+  let t1510 := (t1506 + t1499)
+  let t1518 := (sqrt ((t1510 * t1510) + (((t1509 * t1509) + (t1508 * t1508)) + (t1507 * t1507))))
+  let t1524 := ((sin t1500) / t1500)
+  let t1526 := ((t1524 / (1 : α)) * t1490)
   let t1527 := (q1.v.z * t1526)
   let t1528 := (q1.v.y * t1526)
   let t1529 := (q1.v.x * t1526)
   let t1530 := (q1.r * t1526)
-  let t1531 := (t1527 + t1500)
-  let t1532 := (t1528 + t1501)
-  let t1533 := (t1529 + t1502)
-  let t1534 := (t1530 + t1503)
+  let t1531 := (t1527 + t1496)
+  let t1532 := (t1528 + t1497)
+  let t1533 := (t1529 + t1498)
+  let t1534 := (t1530 + t1499)
   let t1542 := (sqrt ((t1534 * t1534) + (((t1533 * t1533) + (t1532 * t1532)) + (t1531 * t1531))))
-  let t1548 := ((t1457 / t1497) * t)
-  let t1549 := (q2.v.z * t1548)
-  let t1550 := (q2.v.y * t1548)
-  let t1551 := (q2.v.x * t1548)
-  let t1552 := (q2.r * t1548)
-  let t1553 := (t1505 + t1549)
-  let t1554 := (t1506 + t1550)
-  let t1555 := (t1507 + t1551)
-  let t1556 := (t1508 + t1552)
-  let t1564 := (sqrt ((t1556 * t1556) + (((t1555 * t1555) + (t1554 * t1554)) + (t1553 * t1553))))
-  let t1569 := (t1527 + t1549)
-  let t1570 := (t1528 + t1550)
-  let t1571 := (t1529 + t1551)
-  let t1572 := (t1530 + t1552)
-  let t1580 := (sqrt ((t1572 * t1572) + (((t1571 * t1571) + (t1570 * t1570)) + (t1569 * t1569))))
-  if t1400 < teps then
-    if t1402 < teps then
-      if t1410 < teps then
-        if t1427 = (0 : α) then
+  let t1548 := ((sin t1492) / t1492)
+  let t1550 := ((t1548 / (1 : α)) * t)
+  let t1551 := (q2.v.z * t1550)
+  let t1552 := (q2.v.y * t1550)
+  let t1553 := (q2.v.x * t1550)
+  let t1554 := (q2.r * t1550)
+  let t1555 := (t1503 + t1551)
+  let t1556 := (t1504 + t1552)
+  let t1557 := (t1505 + t1553)
+  let t1558 := (t1506 + t1554)
+  let t1566 := (sqrt ((t1558 * t1558) + (((t1557 * t1557) + (t1556 * t1556)) + (t1555 * t1555))))
+  let t1571 := (t1527 + t1551)
+  let t1572 := (t1528 + t1552)
+  let t1573 := (t1529 + t1553)
+  let t1574 := (t1530 + t1554)
+  let t1582 := (sqrt ((t1574 * t1574) + (((t1573 * t1573) + (t1572 * t1572)) + (t1571 * t1571))))
+  let t1588 := ((sin t1488) / t1488)
+  let t1589 := ((1 : α) / t1588)
+  let t1590 := (t1589 * t)
+  let t1591 := (q2.v.z * t1590)
+  let t1592 := (q2.v.y * t1590)
+  let t1593 := (q2.v.x * t1590)
+  let t1594 := (q2.r * t1590)
+  let t1595 := (t1589 * t1490)
+  let t1596 := (q1.v.z * t1595)
+  let t1597 := (q1.v.y * t1595)
+  let t1598 := (q1.v.x * t1595)
+  let t1599 := (q1.r * t1595)
+  let t1600 := (t1596 + t1591)
+  let t1601 := (t1597 + t1592)
+  let t1602 := (t1598 + t1593)
+  let t1603 := (t1599 + t1594)
+  let t1611 := (sqrt ((t1603 * t1603) + (((t1602 * t1602) + (t1601 * t1601)) + (t1600 * t1600))))
+  let t1617 := ((t1524 / t1588) * t1490)
+  let t1618 := (q1.v.z * t1617)
+  let t1619 := (q1.v.y * t1617)
+  let t1620 := (q1.v.x * t1617)
+  let t1621 := (q1.r * t1617)
+  let t1622 := (t1618 + t1591)
+  let t1623 := (t1619 + t1592)
+  let t1624 := (t1620 + t1593)
+  let t1625 := (t1621 + t1594)
+  let t1633 := (sqrt ((t1625 * t1625) + (((t1624 * t1624) + (t1623 * t1623)) + (t1622 * t1622))))
+  let t1639 := ((t1548 / t1588) * t)
+  let t1640 := (q2.v.z * t1639)
+  let t1641 := (q2.v.y * t1639)
+  let t1642 := (q2.v.x * t1639)
+  let t1643 := (q2.r * t1639)
+  let t1644 := (t1596 + t1640)
+  let t1645 := (t1597 + t1641)
+  let t1646 := (t1598 + t1642)
+  let t1647 := (t1599 + t1643)
+  let t1655 := (sqrt ((t1647 * t1647) + (((t1646 * t1646) + (t1645 * t1645)) + (t1644 * t1644))))
+  let t1660 := (t1618 + t1640)
+  let t1661 := (t1619 + t1641)
+  let t1662 := (t1620 + t1642)
+  let t1663 := (t1621 + t1643)
+  let t1671 := (sqrt ((t1663 * t1663) + (((t1662 * t1662) + (t1661 * t1661)) + (t1660 * t1660))))
+  if t1491 < teps then
+    if t1493 < teps then
+      if t1501 < teps then
+        if t1518 = (0 : α) then
           ⟨(1 : α), ⟨(0 : α), (0 : α), (0 : α)⟩⟩
         else
-          ⟨(t1419 / t1427), ⟨(t1418 / t1427), (t1417 / t1427), (t1416 / t1427)⟩⟩
-      else
-        if t1451 = (0 : α) then
-          ⟨(1 : α), ⟨(0 : α), (0 : α), (0 : α)⟩⟩
-        else
-          ⟨(t1443 / t1451), ⟨(t1442 / t1451), (t1441 / t1451), (t1440 / t1451)⟩⟩
-    else
-      if t1410 < teps then
-        if t1475 = (0 : α) then
-          ⟨(1 : α), ⟨(0 : α), (0 : α), (0 : α)⟩⟩
-        else
-          ⟨(t1467 / t1475), ⟨(t1466 / t1475), (t1465 / t1475), (t1464 / t1475)⟩⟩
-      else
-        if t1491 = (0 : α) then
-          ⟨(1 : α), ⟨(0 : α), (0 : α), (0 : α)⟩⟩
-        else
-          ⟨(t1483 / t1491), ⟨(t1482 / t1491), (t1481 / t1491), (t1480 / t1491)⟩⟩
-  else
-    if t1402 < teps then
-      if t1410 < teps then
-        if t1520 = (0 : α) then
-          ⟨(1 : α), ⟨(0 : α), (0 : α), (0 : α)⟩⟩
-        else
-          ⟨(t1512 / t1520), ⟨(t1511 / t1520), (t1510 / t1520), (t1509 / t1520)⟩⟩
+          ⟨(t1510 / t1518), ⟨(t1509 / t1518), (t1508 / t1518), (t1507 / t1518)⟩⟩
       else
         if t1542 = (0 : α) then
           ⟨(1 : α), ⟨(0 : α), (0 : α), (0 : α)⟩⟩
         else
           ⟨(t1534 / t1542), ⟨(t1533 / t1542), (t1532 / t1542), (t1531 / t1542)⟩⟩
     else
-      if t1410 < teps then
-        if t1564 = (0 : α) then
+      if t1501 < teps then
+        if t1566 = (0 : α) then
           ⟨(1 : α), ⟨(0 : α), (0 : α), (0 : α)⟩⟩
         else
-          ⟨(t1556 / t1564), ⟨(t1555 / t1564), (t1554 / t1564), (t1553 / t1564)⟩⟩
+          ⟨(t1558 / t1566), ⟨(t1557 / t1566), (t1556 / t1566), (t1555 / t1566)⟩⟩
       else
-        if t1580 = (0 : α) then
+        if t1582 = (0 : α) then
           ⟨(1 : α), ⟨(0 : α), (0 : α), (0 : α)⟩⟩
         else
-          ⟨(t1572 / t1580), ⟨(t1571 / t1580), (t1570 / t1580), (t1569 / t1580)⟩⟩
+          ⟨(t1574 / t1582), ⟨(t1573 / t1582), (t1572 / t1582), (t1571 / t1582)⟩⟩
+  else
+    if t1493 < teps then
+      if t1501 < teps then
+        if t1611 = (0 : α) then
+          ⟨(1 : α), ⟨(0 : α), (0 : α), (0 : α)⟩⟩
+        else
+          ⟨(t1603 / t1611), ⟨(t1602 / t1611), (t1601 / t1611), (t1600 / t1611)⟩⟩
+      else
+        if t1633 = (0 : α) then
+          ⟨(1 : α), ⟨(0 : α), (0 : α), (0 : α)⟩⟩
+        else
+          ⟨(t1625 / t1633), ⟨(t1624 / t1633), (t1623 / t1633), (t1622 / t1633)⟩⟩
+    else
+      if t1501 < teps then
+        if t1655 = (0 : α) then
+          ⟨(1 : α), ⟨(0 : α), (0 : α), (0 : α)⟩⟩
+        else
+          ⟨(t1647 / t1655), ⟨(t1646 / t1655), (t1645 / t1655), (t1644 / t1655)⟩⟩
+      else
+        if t1671 = (0 : α) then
+          ⟨(1 : α), ⟨(0 : α), (0 : α), (0 : α)⟩⟩
+        else
+          ⟨(t1663 / t1671), ⟨(t1662 / t1671), (t1661 / t1671), (t1660 / t1671)⟩⟩
 
 /-- extracted from the C++ template at T = Sym; 32 path(s) -/
 def C10.Quat.slerpShortestArc {α : Type} [Add α] [Sub α] [Mul α] [Div α] [Neg α] [LT α] [LE α] [DecidableLT α] [DecidableLE α] [DecidableEq α] [OfNat α 0] [OfNat α 1] [OfNat α 2] (teps : α) (sqrt : α → α) (sin : α → α) (atan2 : α → α → α) (q1 : Quat α) (q2 : Quat α) (t : α) : (Quat α) :=
-  let t1372 := (q1.v.z - q2.v.z)
-  let t1373 := (q1.v.y - q2.v.y)
-  let t1374 := (q1.v.x - q2.v.x)
-  let t1375 := (q1.r - q2.r)
-  let t1384 := (q1.v.z + q2.v.z)
-  let t1385 := (q1.v.y + q2.v.y)
-  let t1386 := (q1.v.x + q2.v.x)
-  let t1387 := (q1.r + q2.r)
-  let t1397 := ((2 : α) * (atan2 (sqrt ((t1375 * t1375) + (((t1374 * t1374) + (t1373 * t1373)) + (t1372 * t1372)))) (sqrt ((t1387 * t1387) + (((t1386 * t1386) + (t1385 * t1385)) + (t1384 * t1384))))))
-  let t1399 := ((1 : α) - t)
-  let t1400 := (t1397 * t1397)
-  let t1401 := (t * t1397)
-  let t1402 := (t1401 * t1401)
-  let t1403 := ((1 : α) / (1 : α))
-  let t1404 := (t1403 * t)
-  let t1405 := (q2.v.z * t1404)
-  let t1406 := (q2.v.y * t1404)
-  let t1407 := (q2.v.x * t1404)
-  let t1408 := (q2.r * t1404)
-  let t1409 := (t1399 * t1397)
-  let t1410 := (t1409 * t1409)
-  let t1411 := (t1403 * t1399)
-  let t1412 := (q1.v.z * t1411)
-  let t1413 := (q1.v.y * t1411)
-  let t1414 := (q1.v.x * t1411)
-  let t1415 := (q1.r * t1411)
-  let t1416 := (t1412 + t1405)
-  let t1417 := (t1413 + t1406)
-  let t1418 := (t1414 + t1407)
-  let t1419 := (t1415 + t1408)
-  let t1427 := (sqrt ((t1419 * t1419) + (((t1418 * t1418) + (t1417 * t1417)) + (t1416 * t1416))))
-  let t1433 := ((sin t1409) / t1409)
-  let t1435 := ((t1433 / (1 : α)) * t1399)
-  let t1436 := (q1.v.z * t1435)
-  let t1437 := (q1.v.y * t1435)
-  let t1438 := (q1.v.x * t1435)
-  let t1439 := (q1.r * t1435)
-  let t1440 := (t1436 + t1405)
-  let t1441 := (t1437 + t1406)
-  let t1442 := (t1438 + t1407)
-  let t1443 := (t1439 + t1408)
-  let t1451 := (sqrt ((t1443 * t1443) + (((t1442 * t1442) + (t1441 * t1441)) + (t1440 * t1440))))
-  let t1457 := ((sin t1401) / t1401)
-  let t1459 := ((t1457 / (1 : α)) * t)
-  let t1460 := (q2.v.z * t1459)
-  let t1461 := (q2.v.y * t1459)
-  let t1462 := (q2.v.x * t1459)
-  let t1463 := (q2.r * t1459)
-  let t1464 := (t1412 + t1460)
-  let t1465 := (t1413 + t1461)
-  let t1466 := (t1414 + t1462)
-  let t1467 := (t1415 + t1463)
-  let t1475 := (sqrt ((t1467 * t1467) + (((t1466 * t1466) + (t1465 * t1465)) + (t1464 * t1464))))
-  let t1480 := (t1436 + t1460)
-  let t1481 := (t1437 + t1461)
-  let t1482 := (t1438 + t1462)
-  let t1483 := (t1439 + t1463)
-  let t1491 := (sqrt ((t1483 * t1483) + (((t1482 * t1482) + (t1481 * t1481)) + (t1480 * t1480))))
-  let t1497 := ((sin t1397) / t1397)
-  let t1498 := ((1 : α) / t1497)
-  let t1499 := (t1498 * t)
-  let t1500 := (q2.v.z * t1499)
-  let t1501 := (q2.v.y * t1499)
-  let t1502 := (q2.v.x * t1499)
-  let t1503 := (q2.r * t1499)
-  let t1504 := (t1498 * t1399)
-  let t1505 := (q1.v.z * t1504)
-  let t1506 := (q1.v.y * t1504)
-  let t1507 := (q1.v.x * t1504)
-  let t1508 := (q1.r * t1504)
-  let t1509 := (t1505 + t1500)
-  let t1510 := (t1506 + t1501)
-  let t1511 := (t1507 + t1502)
-  let t1512 := (t1508 + t1503)
-  let t1520 := (sqrt ((t1512 * t1512) + (((t1511 * t1511) + (t1510 * t1510)) + (t1509 * t1509))))
-  let t1526 := ((t1433 / t1497) * t1399)
+  let t1463 := (q1.v.z - q2.v.z)
+  let t1464 := (q1.v.y - q2.v.y)
+  let t1465 := (q1.v.x - q2.v.x)
+  let t1466 := (q1.r - q2.r)
+  let t1475 := (q1.v.z + q2.v.z)
+  let t1476 := (q1.v.y + q2.v.y)
+  let t1477 := (q1.v.x + q2.v.x)
+  let t1478 := (q1.r + q2.r)
+  let t1488 := ((2 : α) * (atan2 (sqrt ((t1466 * t1466) + (((t1465 * t1465) + (t1464 * t1464)) + (t1463 * t1463)))) (sqrt ((t1478 * t1478) + (((t1477 * t1477) + (t1476 * t1476)) + (t1475 * t1475))))))
+  let t1490 := ((1 : α) - t)
+  let t1491 := (t1488 * t1488)
+  let t1492 := (t * t1488)
+  let t1493 := (t1492 * t1492)
+  let t1494 := ((1 : α) / (1 : α))
+  let t1495 := (t1494 * t)
+  let t1496 := (q2.v.z * t1495)
+  let t1497 := (q2.v.y * t1495)
+  let t1498 := (q2.v.x * t1495)
+  let t1499 := (q2.r * t1495)
+  let t1500 := (t1490 * t1488)
+  let t1501 := (t1500 * t1500)
+  let t1502 := (t1494 * t1490)
+  let t1503 := (q1.v.z * t1502)
+  let t1504 := (q1.v.y * t1502)
+  let t1505 := (q1.v.x * t1502)
+  let t1506 := (q1.r * t1502)
+  let t1507 := (t1503 + t1496)
+  let t1508 := (t1504 + t1497)
+  let t1509 := (t1505 + t1498)
+  let t1510 := (t1506 + t1499)
+  let t1518 := (sqrt ((t1510 * t1510) + (((t1509 * t1509) + (t1508 * t1508)) + (t1507 * t1507))))
+  let t1524 := ((sin t1500) / t1500)
+  let t1526 := ((t1524 / (1 : α)) * t1490)
   let t1527 := (q1.v.z * t1526)
   let t1528 := (q1.v.y * t1526)
   let t1529 := (q1.v.x * t1526)
   let t1530 := (q1.r * t1526)
-  let t1531 := (t1527 + t1500)
-  let t1532 := (t1528 + t1501)
-  let t1533 := (t1529 + t1502)
-  let t1534 := (t1530 + t1503)
+  let t1531 := (t1527 + t1496)
+  let t1532 := (t1528 + t1497)
+  let t1533 := (t1529 + t1498)
+  let t1534 := (t1530 + t1499)
   let t1542 := (sqrt ((t1534 * t1534) + (((t1533 * t1533) + (t1532 * t1532)) + (t1531 * t1531))))
-  let t1548 := ((t1457 / t1497) * t)
-  let t1549 := (q2.v.z * t1548)
-  let t1550 := (q2.v.y * t1548)
-  let t1551 := (q2.v.x * t1548)
-  let t1552 := (q2.r * t1548)
-  let t1553 := (t1505 + t1549)
-  let t1554 := (t1506 + t1550)
-  let t1555 := (t1507 + t1551)
-  let t1556 := (t1508 + t1552)
-  let t1564 := (sqrt ((t1556 * t1556) + (((t1555 * t1555) + (t1554 * t1554)) + (t1553 * t1553))))
-  let t1569 := (t1527 + t1549)
-  let t1570 := (t1528 + t1550)
-  let t1571 := (t1529 + t1551)
-  let t1572 := (t1530 + t1552)
-  let t1580 := (sqrt ((t1572 * t1572) + (((t1571 * t1571) + (t1570 * t1570)) + (t1569 * t1569))))
-  let t1591 := ((q1.r * q2.r) + (((q1.v.x * q2.v.x) + (q1.v.y * q2.v.y)) + (q1.v.z * q2.v.z)))
-  let t1592 := (-q2.v.z)
-  let t1593 := (-q2.v.y)
-  let t1594 := (-q2.v.x)
-  let t1595 := (-q2.r)
-  let t1596 := (q1.v.z - t1592)
-  let t1597 := (q1.v.y - t1593)
-  let t1598 := (q1.v.x - t1594)
-  let t1599 := (q1.r - t1595)
-  let t1608 := (q1.v.z + t1592)
-  let t1609 := (q1.v.y + t1593)
-  let t1610 := (q1.v.x + t1594)
-  let t1611 := (q1.r + t1595)
-  let t1621 := ((2 : α) * (atan2 (sqrt ((t1599 * t1599) + (((t1598 * t1598) + (t1597 * t1597)) + (t1596 * t1596)))) (sqrt ((t1611 * t1611) + (((t1610 * t1610) + (t1609 * t1609)) + (t1608 * t1608))))))
-  let t1622 := (t1621 * t1621)
-  let t1623 := (t * t1621)
-  let t1624 := (t1623 * t1623)
-  let t1625 := (t1592 * t1404)
-  let t1626 := (t1593 * t1404)
-  let t1627 := (t1594 * t1404)
-  let t1628 := (t1595 * t1404)
-  let t1629 := (t1399 * t1621)
-  let t1630 := (t1629 * t1629)
-  let t1631 := (t1412 + t1625)
-  let t1632 := (t1413 + t1626)
-  let t1633 := (t1414 + t1627)
-  let t1634 := (t1415 + t1628)
-  let t1642 := (sqrt ((t1634 * t1634) + (((t1633 * t1633) + (t1632 * t1632)) + (t1631 * t1631))))
-  let t1648 := ((sin t1629) / t1629)
-  let t1650 := ((t1648 / (1 : α)) * t1399)
-  let t1651 := (q1.v.z * t1650)
-  let t1652 := (q1.v.y * t1650)
-  let t1653 := (q1.v.x * t1650)
-  let t1654 := (q1.r * t1650)
-  let t1655 := (t1651 + t1625)
-  let t1656 := (t1652 + t1626)
-  let t1657 := (t1653 + t1627)
-  let t1658 := (t1654 + t1628)
-  let t1666 := (sqrt ((t1658 * t1658) + (((t1657 * t1657) + (t1656 * t1656)) + (t1655 * t1655))))
-  let t1672 := ((sin t1623) / t1623)
-  let t1674 := ((t1672 / (1 : α)) * t)
-  let t1675 := (t1592 * t1674)
-  let t1676 := (t1593 * t1674)
-  let t1677 := (t1594 * t1674)
-  let t1678 := (t1595 * t1674)
-  let t1679 := (t1412 + t1675)
-  let t1680 := (t1413 + t1676)
-  let t1681 := (t1414 + t1677)
-  let t1682 := (t1415 + t1678)
-  let t1690 := (sqrt ((t1682 * t1682) + (((t1681 * t1681) + (t1680 * t1680)) + (t1679 * t1679))))
-  let t1695 := (t1651 + t1675)
-  let t1696 := (t1652 + t1676)
-  let t1697 := (t1653 + t1677)
-  let t1698 := (t1654 + t1678)
-  let t1706 := (sqrt ((t1698 * t1698) + (((t1697 * t1697) + (t1696 * t1696)) + (t1695 * t1695))))
-  let t1712 := ((sin t1621) / t1621)
-  let t1713 := ((1 : α) / t1712)
-  let t1714 := (t1713 * t)
-  let t1715 := (t1592 * t1714)
-  let t1716 := (t1593 * t1714)
-  let t1717 := (t1594 * t1714)
-  let t1718 := (t1595 * t1714)
-  let t1719 := (t1713 * t1399)
-  let t1720 := (q1.v.z * t1719)
-  let t1721 := (q1.v.y * t1719)
-  let t1722 := (q1.v.x * t1719)
-  let t1723 := (q1.r * t1719)
-  let t1724 := (t1720 + t1715)
-  let t1725 := (t1721 + t1716)
-  let t1726 := (t1722 + t1717)
-  let t1727 := (t1723 + t1718)
-  let t1735 := (sqrt ((t1727 * t1727) + (((t1726 * t1726) + (t1725 * t1725)) + (t1724 * t1724))))
-  let t1741 := ((t1648 / t1712) * t1399)
+  let t1548 := ((sin t1492) / t1492)
+  let t1550 := ((t1548 / (1 : α)) * t)
+  let t1551 := (q2.v.z * t1550)
+  let t1552 := (q2.v.y * t1550)
+  let t1553 := (q2.v.x * t1550)
+  let t1554 := (q2.r * t1550)
+  let t1555 := (t1503 + t1551)
+  let t1556 := (t1504 + t1552)
+  let t1557 := (t1505 + t1553)
+  let t1558 := (t1506 + t1554)
+  let t1566 := (sqrt ((t1558 * t1558) + (((t1557 * t1557) + (t1556 * t1556)) + (t1555 * t1555))))
+  let t1571 := (t1527 + t1551)
+  let t1572 := (t1528 + t1552)
+  let t1573 := (t1529 + t1553)
+  let t1574 := (t1530 + t1554)
+  let t1582 := (sqrt ((t1574 * t1574) + (((t1573 * t1573) + (t1572 * t1572)) + (t1571 * t1571))))
+  let t1588 := ((sin t1488) / t1488)
+  let t1589 := ((1 : α) / t1588)
+  let t1590 := (t1589 * t)
+  let t1591 := (q2.v.z * t1590)
+  let t1592 := (q2.v.y * t1590)
+  let t1593 := (q2.v.x * t1590)
+  let t1594 := (q2.r * t1590)
+  let t1595 := (t1589 * t1490)
+  let t1596 := (q1.v.z * t1595)
+  let t1597 := (q1.v.y * t1595)
+  let t1598 := (q1.v.x * t1595)
+  let t1599 := (q1.r * t1595)
+  let t1600 := (t1596 + t1591)
+  let t1601 := (t1597 + t1592)
+  let t1602 := (t1598 + t1593)
+  let t1603 := (t1599 + t1594)
+  let t1611 := (sqrt ((t1603 * t1603) + (((t1602 * t1602) + (t1601 * t1601)) + (t1600 * t1600))))
+  let t1617 := ((t1524 / t1588) * t1490)
+  let t1618 := (q1.v.z * t1617)
+  let t1619 := (q1.v.y * t1617)
+  let t1620 := (q1.v.x * t1617)
+  let t1621 := (q1.r * t1617)
+  let t1622 := (t1618 + t1591)
+  let t1623 := (t1619 + t1592)
+  let t1624 := (t1620 + t1593)
+  let t1625 := (t1621 + t1594)
+  let t1633 := (sqrt ((t1625 * t1625) + (((t1624 * t1624) + (t1623 * t1623)) + (t1622 * t1622))))
+  let t1639 := ((t1548 / t1588) * t)
+  let t1640 := (q2.v.z * t1639)
+  let t1641 := (q2.v.y * t1639)
+  let t1642 := (q2.v.x * t1639)
+  let t1643 := (q2.r * t1639)
+  let t1644 := (t1596 + t1640)
+  let t1645 := (t1597 + t1641)
+  let t1646 := (t1598 + t1642)
+  let t1647 := (t1599 + t1643)
+  let t1655 := (sqrt ((t1647 * t1647) + (((t1646 * t1646) + (t1645 * t1645)) + (t1644 * t1644))))
+  let t1660 := (t1618 + t1640)
+  let t1661 := (t1619 + t1641)
+  let t1662 := (t1620 + t1642)
+  let t1663 := (t1621 + t1643)
+  let t1671 := (sqrt ((t1663 * t1663) + (((t1662 * t1662) + (t1661 * t1661)) + (t1660 * t1660))))
+  let t1682 := ((q1.r * q2.r) + (((q1.v.x * q2.v.x) + (q1.v.y * q2.v.y)) + (q1.v.z * q2.v.z)))
+  let t1683 := (-q2.v.z)
+  let t1684 := (-q2.v.y)
+  let t1685 := (-q2.v.x)
+  let t1686 := (-q2.r)
+  let t1687 := (q1.v.z - t1683)
+  let t1688 := (q1.v.y - t1684)
+  let t1689 := (q1.v.x - t1685)
+  let t1690 := (q1.r - t1686)
+  let t1699 := (q1.v.z + t1683)
+  let t1700 := (q1.v.y + t1684)
+  let t1701 := (q1.v.x + t1685)
+  let t1702 := (q1.r + t1686)
+  let t1712 := ((2 : α) * (atan2 (sqrt ((t1690 * t1690) + (((t1689 * t1689) + (t1688 * t1688)) + (t1687 * t1687)))) (sqrt ((t1702 * t1702) + (((t1701 * t1701) + (t1700 * t1700)) + (t1699 * t1699))))))
+  let t1713 := (t1712 * t1712)
+  let t1714 := (t * t1712)
+  let t1715 := (t1714 * t1714)
+  let t1716 := (t1683 * t1495)
+  let t1717 := (t1684 * t1495)
+  let t1718 := (t1685 * t1495)
+  let t1719 := (t1686 * t1495)
+  let t1720 := (t1490 * t1712)
+  let t1721 := (t1720 * t1720)
+  let t1722 := (t1503 + t1716)
+  let t1723 := (t1504 + t1717)
+  let t1724 := (t1505 + t1718)
+  let t1725 := (t1506 + t1719)
+  let t1733 := (sqrt ((t1725 * t1725) + (((t1724 * t1724) + (t1723 * t1723)) + (t1722 * t1722))))
+  let t1739 := ((sin t1720) / t1720)
+  let t1741 := ((t1739 / (1 : α)) * t1490)
   let t1742 := (q1.v.z * t1741)
   let t1743 := (q1.v.y * t1741)
   let t1744 := (q1.v.x * t1741)
   let t1745 := (q1.r * t1741)
-  let t1746 := (t1742 + t1715)
-  let t1747 := (t1743 + t1716)
-  let t1748 := (t1744 + t1717)
-  let t1749 := (t1745 + t1718)
+  let t1746 := (t1742 + t1716)
+  let t1747 := (t1743 + t1717)
+  let t1748 := (t1744 + t1718)
+  let t1749 := (t1745 + t1719)
   let t1757 := (sqrt ((t1749 * t1749) + (((t1748 * t1748) + (t1747 * t1747)) + (t1746 * t1746))))
-  let t1763 := ((t1672 / t1712) * t)
-  let t1764 := (t1592 * t1763)
-  let t1765 := (t1593 * t1763)
-  let t1766 := (t1594 * t1763)
-  let t1767 := (t1595 * t1763)
-  let t1768 := (t1720 + t1764)
-  let t1769 := (t1721 + t1765)
-  let t1770 := (t1722 + t1766)
-  let t1771 := (t1723 + t1767)
-  let t1779 := (sqrt ((t1771 * t1771) + (((t1770 * t1770) + (t1769 * t1769)) + (t1768 * t1768))))
-  let t1784 := (t1742 + t1764)
-  let t1785 := (t1743 + t1765)
-  let t1786 := (t1744 + t1766)
-  let t1787 := (t1745 + t1767)
-  let t1795 := (sqrt ((t1787 * t1787) + (((t1786 * t1786) + (t1785 * t1785)) + (t1784 * t1784))))
-  if (0 : α) ≤ t1591 then
-    if t1400 < teps then
-      if t1402 < teps then
-        if t1410 < teps then
-          if t1427 = (0 : α) then
+  let t1763 := ((sin t1714) / t1714)
+  let t1765 := ((t1763 / (1 : α)) * t)
+  let t1766 := (t1683 * t1765)
+  let t1767 := (t1684 * t1765)
+  let t1768 := (t1685 * t1765)
+  let t1769 := (t1686 * t1765)
+  let t1770 := (t1503 + t1766)
+  let t1771 := (t1504 + t1767)
+  let t1772 := (t1505 + t1768)
+  let t1773 := (t1506 + t1769)
+  let t1781 := (sqrt ((t1773 * t1773) + (((t1772 * t1772) + (t1771 * t1771)) + (t1770 * t1770))))
+  let t1786 := (t1742 + t1766)
+  let t1787 := (t1743 + t1767)
+  let t1788 := (t1744 + t1768)
+  let t1789 := (t1745 + t1769)
+  let t1797 := (sqrt ((t1789 * t1789) + (((t1788 * t1788) + (t1787 * t1787)) + (t1786 * t1786))))
+  let t1803 := ((sin t1712) / t1712)
+  let t1804 := ((1 : α) / t1803)
+  let t1805 := (t1804 * t)
+  let t1806 := (t1683 * t1805)
+  let t1807 := (t1684 * t1805)
+  let t1808 := (t1685 * t1805)
+  let t1809 := (t1686 * t1805)
+  let t1810 := (t1804 * t1490)
+  let t1811 := (q1.v.z * t1810)
+  let t1812 := (q1.v.y * t1810)
+  let t1813 := (q1.v.x * t1810)
+  let t1814 := (q1.r * t1810)
+  let t1815 := (t1811 + t1806)
+  let t1816 := (t1812 + t1807)
+  let t1817 := (t1813 + t1808)
+  let t1818 := (t1814 + t1809)
+  let t1826 := (sqrt ((t1818 * t1818) + (((t1817 * t1817) + (t1816 * t1816)) + (t1815 * t1815))))
+  let t1832 := ((t1739 / t1803) * t1490)
+  let t1833 := (q1.v.z * t1832)
+  let t1834 := (q1.v.y * t1832)
+  let t1835 := (q1.v.x * t1832)
+  let t1836 := (q1.r * t1832)
+  let t1837 := (t1833 + t1806)
+  let t1838 := (t1834 + t1807)
+  let t1839 := (t1835 + t1808)
+  let t1840 := (t1836 + t1809)
+  let t1848 := (sqrt ((t1840 * t1840) + (((t1839 * t1839) + (t1838 * t1838)) + (t1837 * t1837))))
+  let t1854 := ((t1763 / t1803) * t)
+  let t1855 := (t1683 * t1854)
+  let t1856 := (t1684 * t1854)
+  let t1857 := (t1685 * t1854)
+  let t1858 := (t1686 * t1854)
+  let t1859 := (t1811 + t1855)
+  let t1860 := (t1812 + t1856)
+  let t1861 := (t1813 + t1857)
+  let t1862 := (t1814 + t1858)
+  let t1870 := (sqrt ((t1862 * t1862) + (((t1861 * t1861) + (t1860 * t1860)) + (t1859 * t1859))))
+  let t1875 := (t1833 + t1855)
+  let t1876 := (t1834 + t1856)
+  let t1877 := (t1835 + t1857)
+  let t1878 := (t1836 + t1858)
+  let t1886 := (sqrt ((t1878 * t1878) + (((t1877 * t1877) + (t1876 * t1876)) + (t1875 * t1875))))
+  if (0 : α) ≤ t1682 then
+    if t1491 < teps then
+      if t1493 < teps then
+        if t1501 < teps then
+          if t1518 = (0 : α) then
             ⟨(1 : α), ⟨(0 : α), (0 : α), (0 : α)⟩⟩
           else
-            ⟨(t1419 / t1427), ⟨(t1418 / t1427), (t1417 / t1427), (t1416 / t1427)⟩⟩
-        else
-          if t1451 = (0 : α) then
-            ⟨(1 : α), ⟨(0 : α), (0 : α), (0 : α)⟩⟩
-          else
-            ⟨(t1443 / t1451), ⟨(t1442 / t1451), (t1441 / t1451), (t1440 / t1451)⟩⟩
-      else
-        if t1410 < teps then
-          if t1475 = (0 : α) then
-            ⟨(1 : α), ⟨(0 : α), (0 : α), (0 : α)⟩⟩
-          else
-            ⟨(t1467 / t1475), ⟨(t1466 / t1475), (t1465 / t1475), (t1464 / t1475)⟩⟩
-        else
-          if t1491 = (0 : α) then
-            ⟨(1 : α), ⟨(0 : α), (0 : α), (0 : α)⟩⟩
-          else
-            ⟨(t1483 / t1491), ⟨(t1482 / t1491), (t1481 / t1491), (t1480 / t1491)⟩⟩
-    else
-      if t1402 < teps then
-        if t1410 < teps then
-          if t1520 = (0 : α) then
-            ⟨(1 : α), ⟨(0 : α), (0 : α), (0 : α)⟩⟩
-          else
-            ⟨(t1512 / t1520), ⟨(t1511 / t1520), (t1510 / t1520), (t1509 / t1520)⟩⟩
+            ⟨(t1510 / t1518), ⟨(t1509 / t1518), (t1508 / t1518), (t1507 / t1518)⟩⟩
         else
           if t1542 = (0 : α) then
             ⟨(1 : α), ⟨(0 : α), (0 : α), (0 : α)⟩⟩
           else
             ⟨(t1534 / t1542), ⟨(t1533 / t1542), (t1532 / t1542), (t1531 / t1542)⟩⟩
       else
-        if t1410 < teps then
-          if t1564 = (0 : α) then
+        if t1501 < teps then
+          if t1566 = (0 : α) then
             ⟨(1 : α), ⟨(0 : α), (0 : α), (0 : α)⟩⟩
           else
-            ⟨(t1556 / t1564), ⟨(t1555 / t1564), (t1554 / t1564), (t1553 / t1564)⟩⟩
+            ⟨(t1558 / t1566), ⟨(t1557 / t1566), (t1556 / t1566), (t1555 / t1566)⟩⟩
         else
-          if t1580 = (0 : α) then
+          if t1582 = (0 : α) then
             ⟨(1 : α), ⟨(0 : α), (0 : α), (0 : α)⟩⟩
           else
-            ⟨(t1572 / t1580), ⟨(t1571 / t1580), (t1570 / t1580), (t1569 / t1580)⟩⟩
-  else
-    if t1622 < teps then
-      if t1624 < teps then
-        if t1630 < teps then
-          if t1642 = (0 : α) then
-            ⟨(1 : α), ⟨(0 : α), (0 : α), (0 : α)⟩⟩
-          else
-            ⟨(t1634 / t1642), ⟨(t1633 / t1642), (t1632 / t1642), (t1631 / t1642)⟩⟩
-        else
-          if t1666 = (0 : α) then
-            ⟨(1 : α), ⟨(0 : α), (0 : α), (0 : α)⟩⟩
-          else
-            ⟨(t1658 / t1666), ⟨(t1657 / t1666), (t1656 / t1666), (t1655 / t1666)⟩⟩
-      else
-        if t1630 < teps then
-          if t1690 = (0 : α) then
-            ⟨(1 : α), ⟨(0 : α), (0 : α), (0 : α)⟩⟩
-          else
-            ⟨(t1682 / t1690), ⟨(t1681 / t1690), (t1680 / t1690), (t1679 / t1690)⟩⟩
-        else
-          if t1706 = (0 : α) then
-            ⟨(1 : α), ⟨(0 : α), (0 : α), (0 : α)⟩⟩
-          else
-            ⟨(t1698 / t1706), ⟨(t1697 / t1706), (t1696 / t1706), (t1695 / t1706)⟩⟩
+            ⟨(t1574 / t1582), ⟨(t1573 / t1582), (t1572 / t1582), (t1571 / t1582)⟩⟩
     else
-      if t1624 < teps then
-        if t1630 < teps then
-          if t1735 = (0 : α) then
+      if t1493 < teps then
+        if t1501 < teps then
+          if t1611 = (0 : α) then
             ⟨(1 : α), ⟨(0 : α), (0 : α), (0 : α)⟩⟩
           else
-            ⟨(t1727 / t1735), ⟨(t1726 / t1735), (t1725 / t1735), (t1724 / t1735)⟩⟩
+            ⟨(t1603 / t1611), ⟨(t1602 / t1611), (t1601 / t1611), (t1600 / t1611)⟩⟩
+        else
+          if t1633 = (0 : α) then
+            ⟨(1 : α), ⟨(0 : α), (0 : α), (0 : α)⟩⟩
+          else
+            ⟨(t1625 / t1633), ⟨(t1624 / t1633), (t1623 / t1633), (t1622 / t1633)⟩⟩
+      else
+        if t1501 < teps then
+          if t1655 = (0 : α) then
+            ⟨(1 : α), ⟨(0 : α), (0 : α), (0 : α)⟩⟩
+          else
+            ⟨(t1647 / t1655), ⟨(t1646 / t1655), (t1645 / t1655), (t1644 / t1655)⟩⟩
+        else
+          if t1671 = (0 : α) then
+            ⟨(1 : α), ⟨(0 : α), (0 : α), (0 : α)⟩⟩
+          else
+            ⟨(t1663 / t1671), ⟨(t1662 / t1671), (t1661 / t1671), (t1660 / t1671)⟩⟩
+  else
+    if t1713 < teps then
+      if t1715 < teps then
+        if t1721 < teps then
+          if t1733 = (0 : α) then
+            ⟨(1 : α), ⟨(0 : α), (0 : α), (0 : α)⟩⟩
+          else
+            ⟨(t1725 / t1733), ⟨(t1724 / t1733), (t1723 / t1733), (t1722 / t1733)⟩⟩
         else
           if t1757 = (0 : α) then
             ⟨(1 : α), ⟨(0 : α), (0 : α), (0 : α)⟩⟩
           else
             ⟨(t1749 / t1757), ⟨(t1748 / t1757), (t1747 / t1757), (t1746 / t1757)⟩⟩
       else
-        if t1630 < teps then
-          if t1779 = (0 : α) then
+        if t1721 < teps then
+          if t1781 = (0 : α) then
             ⟨(1 : α), ⟨(0 : α), (0 : α), (0 : α)⟩⟩
           else
-            ⟨(t1771 / t1779), ⟨(t1770 / t1779), (t1769 / t1779), (t1768 / t1779)⟩⟩
+            ⟨(t1773 / t1781), ⟨(t1772 / t1781), (t1771 / t1781), (t1770 / t1781)⟩⟩
         else
-          if t1795 = (0 : α) then
+          if t1797 = (0 : α) then
             ⟨(1 : α), ⟨(0 : α), (0 : α), (0 : α)⟩⟩
           else
-            ⟨(t1787 / t1795), ⟨(t1786 / t1795), (t1785 / t1795), (t1784 / t1795)⟩⟩
+            ⟨(t1789 / t1797), ⟨(t1788 / t1797), (t1787 / t1797), (t1786 / t1797)⟩⟩
+    else
+      if t1715 < teps then
+        if t1721 < teps then
+          if t1826 = (0 : α) then
+            ⟨(1 : α), ⟨(0 : α), (0 : α), (0 : α)⟩⟩
+          else
+            ⟨(t1818 / t1826), ⟨(t1817 / t1826), (t1816 / t1826), (t1815 / t1826)⟩⟩
+        else
+          if t1848 = (0 : α) then
+            ⟨(1 : α), ⟨(0 : α), (0 : α), (0 : α)⟩⟩
+          else
+            ⟨(t1840 / t1848), ⟨(t1839 / t1848), (t1838 / t1848), (t1837 / t1848)⟩⟩
+      else
+        if t1721 < teps then
+          if t1870 = (0 : α) then
+            ⟨(1 : α), ⟨(0 : α), (0 : α), (0 : α)⟩⟩
+          else
+            ⟨(t1862 / t1870), ⟨(t1861 / t1870), (t1860 / t1870), (t1859 / t1870)⟩⟩
+        else
+          if t1886 = (0 : α) then
+            ⟨(1 : α), ⟨(0 : α), (0 : α), (0 : α)⟩⟩
+          else
+            ⟨(t1878 / t1886), ⟨(t1877 / t1886), (t1876 / t1886), (t1875 / t1886)⟩⟩
 
 /-- extracted from the C++ template at T = Sym; 96 path(s) -/
 def C10.Quat.intermediate {α : Type} [Add α] [Sub α] [Mul α] [Div α] [Neg α] [LT α] [LE α] [DecidableLT α] [DecidableLE α] [DecidableEq α] [OfNat α 0] [OfNat α 1] [OfNat α 2] [OfNat α 4] (tmin : α) (tmax : α) (sqrt : α → α) (sin : α → α) (cos : α → α) (acos : α → α) (q0 : Quat α) (q1 : Quat α) (q2 : Quat α) : (Quat α) :=
-  let t1810 := ((q1.r * q1.r) + (((q1.v.x * q1.v.x) + (q1.v.y * q1.v.y)) + (q1.v.z * q1.v.z)))
-  let t1814 := ((-q1.v.z) / t1810)
-  let t1815 := ((-q1.v.y) / t1810)
-  let t1816 := ((-q1.v.x) / t1810)
-  let t1817 := (q1.r / t1810)
-  let t1836 := (((t1817 * q2.v.z) + (t1814 * q2.r)) + ((t1816 * q2.v.y) - (t1815 * q2.v.x)))
-  let t1837 := (((t1817 * q2.v.y) + (t1815 * q2.r)) + ((t1814 * q2.v.x) - (t1816 * q2.v.z)))
-  let t1838 := (((t1817 * q2.v.x) + (t1816 * q2.r)) + ((t1815 * q2.v.z) - (t1814 * q2.v.y)))
-  let t1864 := (((t1817 * q0.v.z) + (t1814 * q0.r)) + ((t1816 * q0.v.y) - (t1815 * q0.v.x)))
-  let t1865 := (((t1817 * q0.v.y) + (t1815 * q0.r)) + ((t1814 * q0.v.x) - (t1816 * q0.v.z)))
-  let t1866 := (((t1817 * q0.v.x) + (t1816 * q0.r)) + ((t1815 * q0.v.z) - (t1814 * q0.v.y)))
-  let t1875 := (acos (smin ((t1817 * q2.r) - (((t1816 * q2.v.x) + (t1815 * q2.v.y)) + (t1814 * q2.v.z))) (1 : α)))
-  let t1877 := (acos (smin ((t1817 * q0.r) - (((t1816 * q0.v.x) + (t1815 * q0.v.y)) + (t1814 * q0.v.z))) (1 : α)))
-  let t1882 := ((t1864 + t1836) * (-((1 : α) / (4 : α))))
-  let t1883 := ((t1865 + t1837) * (-((1 : α) / (4 : α))))
-  let t1884 := ((t1866 + t1838) * (-((1 : α) / (4 : α))))
-  let t1886 := (V3.length tmin sqrt ⟨t1884, t1883, t1882⟩)
-  let t1887 := (sin t1886)
-  let t1888 := (sabs t1886)
-  let t1889 := (tmax * t1888)
-  let t1890 := (sabs t1887)
-  let t1891 := (cos t1886)
-  let t1892 := (t1882 * (1 : α))
-  let t1893 := (t1883 * (1 : α))
-  let t1894 := (t1884 * (1 : α))
-  let t1904 := (q1.v.z * t1891)
-  let t1905 := (q1.v.y * t1891)
-  let t1906 := (q1.v.x * t1891)
-  let t1913 := (((q1.r * t1892) + t1904) + ((q1.v.x * t1893) - (q1.v.y * t1894)))
-  let t1914 := (((q1.r * t1893) + t1905) + ((q1.v.z * t1894) - (q1.v.x * t1892)))
-  let t1915 := (((q1.r * t1894) + t1906) + ((q1.v.y * t1892) - (q1.v.z * t1893)))
-  let t1921 := (q1.r * t1891)
-  let t1922 := (t1921 - (((q1.v.x * t1894) + (q1.v.y * t1893)) + (q1.v.z * t1892)))
-  let t1930 := (sqrt ((t1922 * t1922) + (((t1915 * t1915) + (t1914 * t1914)) + (t1913 * t1913))))
-  let t1935 := (t1887 / t1886)
-  let t1936 := (t1882 * t1935)
-  let t1937 := (t1883 * t1935)
-  let t1938 := (t1884 * t1935)
-  let t1954 := (((q1.r * t1936) + t1904) + ((q1.v.x * t1937) - (q1.v.y * t1938)))
-  let t1955 := (((q1.r * t1937) + t1905) + ((q1.v.z * t1938) - (q1.v.x * t1936)))
-  let t1956 := (((q1.r * t1938) + t1906) + ((q1.v.y * t1936) - (q1.v.z * t1937)))
-  let t1962 := (t1921 - (((q1.v.x * t1938) + (q1.v.y * t1937)) + (q1.v.z * t1936)))
-  let t1970 := (sqrt ((t1962 * t1962) + (((t1956 * t1956) + (t1955 * t1955)) + (t1954 * t1954))))
-  let t1971 := (t1962 / t1970)
-  let t1972 := (t1956 / t1970)
-  let t1973 := (t1955 / t1970)
-  let t1974 := (t1954 / t1970)
-  let t1975 := (sin t1877)
-  let t1976 := (sabs t1975)
-  let t1977 := (tmax * t1976)
-  let t1978 := (sabs t1877)
-  let t1979 := (t1864 * (1 : α))
-  let t1980 := (t1865 * (1 : α))
-  let t1981 := (t1866 * (1 : α))
-  let t1985 := ((t1979 + t1836) * (-((1 : α) / (4 : α))))
-  let t1986 := ((t1980 + t1837) * (-((1 : α) / (4 : α))))
-  let t1987 := ((t1981 + t1838) * (-((1 : α) / (4 : α))))
-  let t1988 := (V3.length tmin sqrt ⟨t1987, t1986, t1985⟩)
-  let t1989 := (sin t1988)
-  let t1990 := (sabs t1988)
-  let t1991 := (tmax * t1990)
-  let t1992 := (sabs t1989)
-  let t1993 := (cos t1988)
-  let t1994 := (t1985 * (1 : α))
-  let t1995 := (t1986 * (1 : α))
-  let t1996 := (t1987 * (1 : α))
-  let t2006 := (q1.v.z * t1993)
-  let t2007 := (q1.v.y * t1993)
-  let t2008 := (q1.v.x * t1993)
-  let t2015 := (((q1.r * t1994) + t2006) + ((q1.v.x * t1995) - (q1.v.y * t1996)))
-  let t2016 := (((q1.r * t1995) + t2007) + ((q1.v.z * t1996) - (q1.v.x * t1994)))
-  let t2017 := (((q1.r * t1996) + t2008) + ((q1.v.y * t1994) - (q1.v.z * t1995)))
-  let t2023 := (q1.r * t1993)
-  let t2024 := (t2023 - (((q1.v.x * t1996) + (q1.v.y * t1995)) + (q1.v.z * t1994)))
-  let t2032 := (sqrt ((t2024 * t2024) + (((t2017 * t2017) + (t2016 * t2016)) + (t2015 * t2015))))
-  let t2037 := (t1989 / t1988)
-  let t2038 := (t1985 * t2037)
-  let t2039 := (t1986 * t2037)
-  let t2040 := (t1987 * t2037)
-  let t2056 := (((q1.r * t2038) + t2006) + ((q1.v.x * t2039) - (q1.v.y * t2040)))
-  let t2057 := (((q1.r * t2039) + t2007) + ((q1.v.z * t2040) - (q1.v.x * t2038)))
-  let t2058 := (((q1.r * t2040) + t2008) + ((q1.v.y * t2038) - (q1.v.z * t2039)))
-  let t2064 := (t2023 - (((q1.v.x * t2040) + (q1.v.y * t2039)) + (q1.v.z * t2038)))
-  let t2072 := (sqrt ((t2064 * t2064) + (((t2058 * t2058) + (t2057 * t2057)) + (t2056 * t2056))))
-  let t2073 := (t2064 / t2072)
-  let t2074 := (t2058 / t2072)
-  let t2075 := (t2057 / t2072)
-  let t2076 := (t2056 / t2072)
-  let t2077 := (t1877 / t1975)
-  let t2078 := (t1864 * t2077)
-  let t2079 := (t1865 * t2077)
-  let t2080 := (t1866 * t2077)
-  let t2084 := ((t2078 + t1836) * (-((1 : α) / (4 : α))))
-  let t2085 := ((t2079 + t1837) * (-((1 : α) / (4 : α))))
-  let t2086 := ((t2080 + t1838) * (-((1 : α) / (4 : α))))
-  let t2087 := (V3.length tmin sqrt ⟨t2086, t2085, t2084⟩)
-  let t2088 := (sin t2087)
-  let t2089 := (sabs t2087)
-  let t2090 := (tmax * t2089)
-  let t2091 := (sabs t2088)
-  let t2092 := (cos t2087)
-  let t2093 := (t2084 * (1 : α))
-  let t2094 := (t2085 * (1 : α))
-  let t2095 := (t2086 * (1 : α))
-  let t2105 := (q1.v.z * t2092)
-  let t2106 := (q1.v.y * t2092)
-  let t2107 := (q1.v.x * t2092)
-  let t2114 := (((q1.r * t2093) + t2105) + ((q1.v.x * t2094) - (q1.v.y * t2095)))
-  let t2115 := (((q1.r * t2094) + t2106) + ((q1.v.z * t2095) - (q1.v.x * t2093)))
-  let t2116 := (((q1.r * t2095) + t2107) + ((q1.v.y * t2093) - (q1.v.z * t2094)))
-  let t2122 := (q1.r * t2092)
-  let t2123 := (t2122 - (((q1.v.x * t2095) + (q1.v.y * t2094)) + (q1.v.z * t2093)))
-  let t2131 := (sqrt ((t2123 * t2123) + (((t2116 * t2116) + (t2115 * t2115)) + (t2114 * t2114))))
-  let t2132 := (t2123 / t2131)
-  let t2133 := (t2116 / t2131)
-  let t2134 := (t2115 / t2131)
-  let t2135 := (t2114 / t2131)
-  let t2136 := (t2088 / t2087)
-  let t2137 := (t2084 * t2136)
-  let t2138 := (t2085 * t2136)
-  let t2139 := (t2086 * t2136)
-  let t2155 := (((q1.r * t2137) + t2105) + ((q1.v.x * t2138) - (q1.v.y * t2139)))
-  let t2156 := (((q1.r * t2138) + t2106) + ((q1.v.z * t2139) - (q1.v.x * t2137)))
-  let t2157 := (((q1.r * t2139) + t2107) + ((q1.v.y * t2137) - (q1.v.z * t2138)))
-  let t2163 := (t2122 - (((q1.v.x * t2139) + (q1.v.y * t2138)) + (q1.v.z * t2137)))
-  let t2171 := (sqrt ((t2163 * t2163) + (((t2157 * t2157) + (t2156 * t2156)) + (t2155 * t2155))))
-  let t2172 := (t2163 / t2171)
-  let t2173 := (t2157 / t2171)
-  let t2174 := (t2156 / t2171)
-  let t2175 := (t2155 / t2171)
-  let t2176 := (sin t1875)
-  let t2177 := (sabs t2176)
-  let t2178 := (tmax * t2177)
-  let t2179 := (sabs t1875)
-  let t2180 := (t1836 * (1 : α))
-  let t2181 := (t1837 * (1 : α))
-  let t2182 := (t1838 * (1 : α))
-  let t2186 := ((t1864 + t2180) * (-((1 : α) / (4 : α))))
-  let t2187 := ((t1865 + t2181) * (-((1 : α) / (4 : α))))
-  let t2188 := ((t1866 + t2182) * (-((1 : α) / (4 : α))))
-  let t2189 := (V3.length tmin sqrt ⟨t2188, t2187, t2186⟩)
-  let t2190 := (sin t2189)
-  let t2191 := (sabs t2189)
-  let t2192 := (tmax * t2191)
-  let t2193 := (sabs t2190)
-  let t2194 := (cos t2189)
-  let t2195 := (t2186 * (1 : α))
-  let t2196 := (t2187 * (1 : α))
-  let t2197 := (t2188 * (1 : α))
-  let t2207 := (q1.v.z * t2194)
-  let t2208 := (q1.v.y * t2194)
-  let t2209 := (q1.v.x * t2194)
-  let t2216 := (((q1.r * t2195) + t2207) + ((q1.v.x * t2196) - (q1.v.y * t2197)))
-  let t2217 := (((q1.r * t2196) + t2208) + ((q1.v.z * t2197) - (q1.v.x * t2195)))
-  let t2218 := (((q1.r * t2197) + t2209) + ((q1.v.y * t2195) - (q1.v.z * t2196)))
-  let t2224 := (q1.r * t2194)
-  let t2225 := (t2224 - (((q1.v.x * t2197) + (q1.v.y * t2196)) + (q1.v.z * t2195)))
-  let t2233 := (sqrt ((t2225 * t2225) + (((t2218 * t2218) + (t2217 * t2217)) + (t2216 * t2216))))
-  let t2238 := (t2190 / t2189)
-  let t2239 := (t2186 * t2238)
-  let t2240 := (t2187 * t2238)
-  let t2241 := (t2188 * t2238)
-  let t2257 := (((q1.r * t2239) + t2207) + ((q1.v.x * t2240) - (q1.v.y * t2241)))
-  let t2258 := (((q1.r * t2240) + t2208) + ((q1.v.z * t2241) - (q1.v.x * t2239)))
-  let t2259 := (((q1.r * t2241) + t2209) + ((q1.v.y * t2239) - (q1.v.z * t2240)))
-  let t2265 := (t2224 - (((q1.v.x * t2241) + (q1.v.y * t2240)) + (q1.v.z * t2239)))
-  let t2273 := (sqrt ((t2265 * t2265) + (((t2259 * t2259) + (t2258 * t2258)) + (t2257 * t2257))))
-  let t2274 := (t2265 / t2273)
-  let t2275 := (t2259 / t2273)
-  let t2276 := (t2258 / t2273)
-  let t2277 := (t2257 / t2273)
-  let t2281 := ((t1979 + t2180) * (-((1 : α) / (4 : α))))
-  let t2282 := ((t1980 + t2181) * (-((1 : α) / (4 : α))))
-  let t2283 := ((t1981 + t2182) * (-((1 : α) / (4 : α))))
-  let t2284 := (V3.length tmin sqrt ⟨t2283, t2282, t2281⟩)
-  let t2285 := (sin t2284)
-  let t2286 := (sabs t2284)
-  let t2287 := (tmax * t2286)
-  let t2288 := (sabs t2285)
-  let t2289 := (cos t2284)
-  let t2290 := (t2281 * (1 : α))
-  let t2291 := (t2282 * (1 : α))
-  let t2292 := (t2283 * (1 : α))
-  let t2302 := (q1.v.z * t2289)
-  let t2303 := (q1.v.y * t2289)
-  let t2304 := (q1.v.x * t2289)
-  let t2311 := (((q1.r * t2290) + t2302) + ((q1.v.x * t2291) - (q1.v.y * t2292)))
-  let t2312 := (((q1.r * t2291) + t2303) + ((q1.v.z * t2292) - (q1.v.x * t2290)))
-  let t2313 := (((q1.r * t2292) + t2304) + ((q1.v.y * t2290) - (q1.v.z * t2291)))
-  let t2319 := (q1.r * t2289)
-  let t2320 := (t2319 - (((q1.v.x * t2292) + (q1.v.y * t2291)) + (q1.v.z * t2290)))
-  let t2328 := (sqrt ((t2320 * t2320) + (((t2313 * t2313) + (t2312 * t2312)) + (t2311 * t2311))))
-  let t2333 := (t2285 / t2284)
-  let t2334 := (t2281 * t2333)
-  let t2335 := (t2282 * t2333)
-  let t2336 := (t2283 * t2333)
-  let t2352 := (((q1.r * t2334) + t2302) + ((q1.v.x * t2335) - (q1.v.y * t2336)))
-  let t2353 := (((q1.r * t2335) + t2303) + ((q1.v.z * t2336) - (q1.v.x * t2334)))
-  let t2354 := (((q1.r * t2336) + t2304) + ((q1.v.y * t2334) - (q1.v.z * t2335)))
-  let t2360 := (t2319 - (((q1.v.x * t2336) + (q1.v.y * t2335)) + (q1.v.z * t2334)))
-  let t2368 := (sqrt ((t2360 * t2360) + (((t2354 * t2354) + (t2353 * t2353)) + (t2352 * t2352))))
-  let t2369 := (t2360 / t2368)
-  let t2370 := (t2354 / t2368)
-  let t2371 := (t2353 / t2368)
-  let t2372 := (t2352 / t2368)
-  let t2376 := ((t2078 + t2180) * (-((1 : α) / (4 : α))))
-  let t2377 := ((t2079 + t2181) * (-((1 : α) / (4 : α))))
-  let t2378 := ((t2080 + t2182) * (-((1 : α) / (4 : α))))
-  let t2379 := (V3.length tmin sqrt ⟨t2378, t2377, t2376⟩)
-  let t2380 := (sin t2379)
-  let t2381 := (sabs t2379)
-  let t2382 := (tmax * t2381)
-  let t2383 := (sabs t2380)
-  let t2384 := (cos t2379)
-  let t2385 := (t2376 * (1 : α))
-  let t2386 := (t2377 * (1 : α))
-  let t2387 := (t2378 * (1 : α))
-  let t2397 := (q1.v.z * t2384)
-  let t2398 := (q1.v.y * t2384)
-  let t2399 := (q1.v.x * t2384)
-  let t2406 := (((q1.r * t2385) + t2397) + ((q1.v.x * t2386) - (q1.v.y * t2387)))
-  let t2407 := (((q1.r * t2386) + t2398) + ((q1.v.z * t2387) - (q1.v.x * t2385)))
-  let t2408 := (((q1.r * t2387) + t2399) + ((q1.v.y * t2385) - (q1.v.z * t2386)))
-  let t2414 := (q1.r * t2384)
-  let t2415 := (t2414 - (((q1.v.x * t2387) + (q1.v.y * t2386)) + (q1.v.z * t2385)))
-  let t2423 := (sqrt ((t2415 * t2415) + (((t2408 * t2408) + (t2407 * t2407)) + (t2406 * t2406))))
-  let t2424 := (t2415 / t2423)
-  let t2425 := (t2408 / t2423)
-  let t2426 := (t2407 / t2423)
-  let t2427 := (t2406 / t2423)
-  let t2428 := (t2380 / t2379)
-  let t2429 := (t2376 * t2428)
-  let t2430 := (t2377 * t2428)
-  let t2431 := (t2378 * t2428)
-  let t2447 := (((q1.r * t2429) + t2397) + ((q1.v.x * t2430) - (q1.v.y * t2431)))
-  let t2448 := (((q1.r * t2430) + t2398) + ((q1.v.z * t2431) - (q1.v.x * t2429)))
-  let t2449 := (((q1.r * t2431) + t2399) + ((q1.v.y * t2429) - (q1.v.z * t2430)))
-  let t2455 := (t2414 - (((q1.v.x * t2431) + (q1.v.y * t2430)) + (q1.v.z * t2429)))
-  let t2463 := (sqrt ((t2455 * t2455) + (((t2449 * t2449) + (t2448 * t2448)) + (t2447 * t2447))))
-  let t2464 := (t2455 / t2463)
-  let t2465 := (t2449 / t2463)
-  let t2466 := (t2448 / t2463)
-  let t2467 := (t2447 / t2463)
-  let t2468 := (t1875 / t2176)
-  let t2469 := (t1836 * t2468)
-  let t2470 := (t1837 * t2468)
-  let t2471 := (t1838 * t2468)
-  let t2475 := ((t1864 + t2469) * (-((1 : α) / (4 : α))))
-  let t2476 := ((t1865 + t2470) * (-((1 : α) / (4 : α))))
-  let t2477 := ((t1866 + t2471) * (-((1 : α) / (4 : α))))
-  let t2478 := (V3.length tmin sqrt ⟨t2477, t2476, t2475⟩)
-  let t2479 := (sin t2478)
-  let t2480 := (sabs t2478)
-  let t2481 := (tmax * t2480)
-  let t2482 := (sabs t2479)
-  let t2483 := (cos t2478)
-  let t2484 := (t2475 * (1 : α))
-  let t2485 := (t2476 * (1 : α))
-  let t2486 := (t2477 * (1 : α))
-  let t2496 := (q1.v.z * t2483)
-  let t2497 := (q1.v.y * t2483)
-  let t2498 := (q1.v.x * t2483)
-  let t2505 := (((q1.r * t2484) + t2496) + ((q1.v.x * t2485) - (q1.v.y * t2486)))
-  let t2506 := (((q1.r * t2485) + t2497) + ((q1.v.z * t2486) - (q1.v.x * t2484)))
-  let t2507 := (((q1.r * t2486) + t2498) + ((q1.v.y * t2484) - (q1.v.z * t2485)))
-  let t2513 := (q1.r * t2483)
-  let t2514 := (t2513 - (((q1.v.x * t2486) + (q1.v.y * t2485)) + (q1.v.z * t2484)))
-  let t2522 := (sqrt ((t2514 * t2514) + (((t2507 * t2507) + (t2506 * t2506)) + (t2505 * t2505))))
-  let t2523 := (t2514 / t2522)
-  let t2524 := (t2507 / t2522)
-  let t2525 := (t2506 / t2522)
-  let t2526 := (t2505 / t2522)
-  let t2527 := (t2479 / t2478)
-  let t2528 := (t2475 * t2527)
-  let t2529 := (t2476 * t2527)
-  let t2530 := (t2477 * t2527)
-  let t2546 := (((q1.r * t2528) + t2496) + ((q1.v.x * t2529) - (q1.v.y * t2530)))
-  let t2547 := (((q1.r * t2529) + t2497) + ((q1.v.z * t2530) - (q1.v.x * t2528)))
-  let t2548 := (((q1.r * t2530) + t2498) + ((q1.v.y * t2528) - (q1.v.z * t2529)))
-  let t2554 := (t2513 - (((q1.v.x * t2530) + (q1.v.y * t2529)) + (q1.v.z * t2528)))
-  let t2562 := (sqrt ((t2554 * t2554) + (((t2548 * t2548) + (t2547 * t2547)) + (t2546 * t2546))))
-  let t2563 := (t2554 / t2562)
-  let t2564 := (t2548 / t2562)
-  let t2565 := (t2547 / t2562)
-  let t2566 := (t2546 / t2562)
-  let t2570 := ((t1979 + t2469) * (-((1 : α) / (4 : α))))
-  let t2571 := ((t1980 + t2470) * (-((1 : α) / (4 : α))))
-  let t2572 := ((t1981 + t2471) * (-((1 : α) / (4 : α))))
-  let t2573 := (V3.length tmin sqrt ⟨t2572, t2571, t2570⟩)
-  let t2574 := (sin t2573)
-  let t2575 := (sabs t2573)
-  let t2576 := (tmax * t2575)
-  let t2577 := (sabs t2574)
-  let t2578 := (cos t2573)
-  let t2579 := (t2570 * (1 : α))
-  let t2580 := (t2571 * (1 : α))
-  let t2581 := (t2572 * (1 : α))
-  let t2591 := (q1.v.z * t2578)
-  let t2592 := (q1.v.y * t2578)
-  let t2593 := (q1.v.x * t2578)
-  let t2600 := (((q1.r * t2579) + t2591) + ((q1.v.x * t2580) - (q1.v.y * t2581)))
-  let t2601 := (((q1.r * t2580) + t2592) + ((q1.v.z * t2581) - (q1.v.x * t2579)))
-  let t2602 := (((q1.r * t2581) + t2593) + ((q1.v.y * t2579) - (q1.v.z * t2580)))
-  let t2608 := (q1.r * t2578)
-  let t2609 := (t2608 - (((q1.v.x * t2581) + (q1.v.y * t2580)) + (q1.v.z * t2579)))
-  let t2617 := (sqrt ((t2609 * t2609) + (((t2602 * t2602) + (t2601 * t2601)) + (t2600 * t2600))))
-  let t2618 := (t2609 / t2617)
-  let t2619 := (t2602 / t2617)
-  let t2620 := (t2601 / t2617)
-  let t2621 := (t2600 / t2617)
-  let t2622 := (t2574 / t2573)
-  let t2623 := (t2570 * t2622)
-  let t2624 := (t2571 * t2622)
-  let t2625 := (t2572 * t2622)
-  let t2641 := (((q1.r * t2623) + t2591) + ((q1.v.x * t2624) - (q1.v.y * t2625)))
-  let t2642 := (((q1.r * t2624) + t2592) + ((q1.v.z * t2625) - (q1.v.x * t2623)))
-  let t2643 := (((q1.r * t2625) + t2593) + ((q1.v.y * t2623) - (q1.v.z * t2624)))
-  let t2649 := (t2608 - (((q1.v.x * t2625) + (q1.v.y * t2624)) + (q1.v.z * t2623)))
-  let t2657 := (sqrt ((t2649 * t2649) + (((t2643 * t2643) + (t2642 * t2642)) + (t2641 * t2641))))
-  let t2658 := (t2649 / t2657)
-  let t2659 := (t2643 / t2657)
-  let t2660 := (t2642 / t2657)
-  let t2661 := (t2641 / t2657)
-  let t2665 := ((t2078 + t2469) * (-((1 : α) / (4 : α))))
-  let t2666 := ((t2079 + t2470) * (-((1 : α) / (4 : α))))
-  let t2667 := ((t2080 + t2471) * (-((1 : α) / (4 : α))))
-  let t2668 := (V3.length tmin sqrt ⟨t2667, t2666, t2665⟩)
-  let t2669 := (sin t2668)
-  let t2670 := (sabs t2668)
-  let t2671 := (tmax * t2670)
-  let t2672 := (sabs t2669)
-  let t2673 := (cos t2668)
-  let t2674 := (t2665 * (1 : α))
-  let t2675 := (t2666 * (1 : α))
-  let t2676 := (t2667 * (1 : α))
-  let t2686 := (q1.v.z * t2673)
-  let t2687 := (q1.v.y * t2673)
-  let t2688 := (q1.v.x * t2673)
-  let t2695 := (((q1.r * t2674) + t2686) + ((q1.v.x * t2675) - (q1.v.y * t2676)))
-  let t2696 := (((q1.r * t2675) + t2687) + ((q1.v.z * t2676) - (q1.v.x * t2674)))
-  let t2697 := (((q1.r * t2676) + t2688) + ((q1.v.y * t2674) - (q1.v.z * t2675)))
-  let t2703 := (q1.r * t2673)
-  let t2704 := (t2703 - (((q1.v.x * t2676) + (q1.v.y * t2675)) + (q1.v.z * t2674)))
-  let t2712 := (sqrt ((t2704 * t2704) + (((t2697 * t2697) + (t2696 * t2696)) + (t2695 * t2695))))
-  let t2713 := (t2704 / t2712)
-  let t2714 := (t2697 / t2712)
-  let t2715 := (t2696 / t2712)
-  let t2716 := (t2695 / t2712)
-  let t2717 := (t2669 / t2668)
-  let t2718 := (t2665 * t2717)
-  let t2719 := (t2666 * t2717)
-  let t2720 := (t2667 * t2717)
-  let t2736 := (((q1.r * t2718) + t2686) + ((q1.v.x * t2719) - (q1.v.y * t2720)))
-  let t2737 := (((q1.r * t2719) + t2687) + ((q1.v.z * t2720) - (q1.v.x * t2718)))
-  let t2738 := (((q1.r * t2720) + t2688) + ((q1.v.y * t2718) - (q1.v.z * t2719)))
-  let t2744 := (t2703 - (((q1.v.x * t2720) + (q1.v.y * t2719)) + (q1.v.z * t2718)))
-  let t2752 := (sqrt ((t2744 * t2744) + (((t2738 * t2738) + (t2737 * t2737)) + (t2736 * t2736))))
-  let t2753 := (t2744 / t2752)
-  let t2754 := (t2738 / t2752)
-  let t2755 := (t2737 / t2752)
-  let t2756 := (t2736 / t2752)
-  if t1875 = (0 : α) then
-    if t1877 = (0 : α) then
-      if t1888 < (1 : α) then
-        if t1889 ≤ t1890 then
-          if t1930 = (0 : α) then
+  let t1901 := ((q1.r * q1.r) + (((q1.v.x * q1.v.x) + (q1.v.y * q1.v.y)) + (q1.v.z * q1.v.z)))
+  let t1905 := ((-q1.v.z) / t1901)
+  let t1906 := ((-q1.v.y) / t1901)
+  let t1907 := ((-q1.v.x) / t1901)
+  let t1908 := (q1.r / t1901)
+  let t1927 := (((t1908 * q2.v.z) + (t1905 * q2.r)) + ((t1907 * q2.v.y) - (t1906 * q2.v.x)))
+  let t1928 := (((t1908 * q2.v.y) + (t1906 * q2.r)) + ((t1905 * q2.v.x) - (t1907 * q2.v.z)))
+  let t1929 := (((t1908 * q2.v.x) + (t1907 * q2.r)) + ((t1906 * q2.v.z) - (t1905 * q2.v.y)))
+  let t1955 := (((t1908 * q0.v.z) + (t1905 * q0.r)) + ((t1907 * q0.v.y) - (t1906 * q0.v.x)))
+  let t1956 := (((t1908 * q0.v.y) + (t1906 * q0.r)) + ((t1905 * q0.v.x) - (t1907 * q0.v.z)))
+  let t1957 := (((t1908 * q0.v.x) + (t1907 * q0.r)) + ((t1906 * q0.v.z) - (t1905 * q0.v.y)))
+  let t1966 := (acos (smin ((t1908 * q2.r) - (((t1907 * q2.v.x) + (t1906 * q2.v.y)) + (t1905 * q2.v.z))) (1 : α)))
+  let t1968 := (acos (smin ((t1908 * q0.r) - (((t1907 * q0.v.x) + (t1906 * q0.v.y)) + (t1905 * q0.v.z))) (1 : α)))
+  let t1973 := ((t1955 + t1927) * (-((1 : α) / (4 : α))))
+  let t1974 := ((t1956 + t1928) * (-((1 : α) / (4 : α))))
+  let t1975 := ((t1957 + t1929) * (-((1 : α) / (4 : α))))
+  let t1977 := (V3.length tmin sqrt ⟨t1975, t1974, t1973⟩)
+  let t1978 := (sin t1977)
+  let t1979 := (sabs t1977)
+  let t1980 := (tmax * t1979)
+  let t1981 := (sabs t1978)
+  let t1982 := (cos t1977)
+  let t1983 := (t1973 * (1 : α))
+  let t1984 := (t1974 * (1 : α))
+  let t1985 := (t1975 * (1 : α))
+  let t1995 := (q1.v.z * t1982)
+  let t1996 := (q1.v.y * t1982)
+  let t1997 := (q1.v.x * t1982)
+  let t2004 := (((q1.r * t1983) + t1995) + ((q1.v.x * t1984) - (q1.v.y * t1985)))
+  let t2005 := (((q1.r * t1984) + t1996) + ((q1.v.z * t1985) - (q1.v.x * t1983)))
+  let t2006 := (((q1.r * t1985) + t1997) + ((q1.v.y * t1983) - (q1.v.z * t1984)))
+  let t2012 := (q1.r * t1982)
+  let t2013 := (t2012 - (((q1.v.x * t1985) + (q1.v.y * t1984)) + (q1.v.z * t1983)))
+  let t2021 := (sqrt ((t2013 * t2013) + (((t2006 * t2006) + (t2005 * t2005)) + (t2004 * t2004))))
+  let t2026 := (t1978 / t1977)
+  let t2027 := (t1973 * t2026)
+  let t2028 := (t1974 * t2026)
+  let t2029 := (t1975 * t2026)
+  let t2045 := (((q1.r * t2027) + t1995) + ((q1.v.x * t2028) - (q1.v.y * t2029)))
+  let t2046 := (((q1.r * t2028) + t1996) + ((q1.v.z * t2029) - (q1.v.x * t2027)))
+  let t2047 := (((q1.r * t2029) + t1997) + ((q1.v.y * t2027) - (q1.v.z * t2028)))
+  let t2053 := (t2012 - (((q1.v.x * t2029) + (q1.v.y * t2028)) + (q1.v.z * t2027)))
+  let t2061 := (sqrt ((t2053 * t2053) + (((t2047 * t2047) + (t2046 * t2046)) + (t2045 * t2045))))
+  let t2062 := (t2053 / t2061)
+  let t2063 := (t2047 / t2061)
+  let t2064 := (t2046 / t2061)
+  let t2065 := (t2045 / t2061)
+  let t2066 := (sin t1968)
+  let t2067 := (sabs t2066)
+  let t2068 := (tmax * t2067)
+  let t2069 := (sabs t1968)
+  let t2070 := (t1955 * (1 : α))
+  let t2071 := (t1956 * (1 : α))
+  let t2072 := (t1957 * (1 : α))
+  let t2076 := ((t2070 + t1927) * (-((1 : α) / (4 : α))))
+  let t2077 := ((t2071 + t1928) * (-((1 : α) / (4 : α))))
+  let t2078 := ((t2072 + t1929) * (-((1 : α) / (4 : α))))
+  let t2079 := (V3.length tmin sqrt ⟨t2078, t2077, t2076⟩)
+  let t2080 := (sin t2079)
+  let t2081 := (sabs t2079)
+  let t2082 := (tmax * t2081)
+  let t2083 := (sabs t2080)
+  let t2084 := (cos t2079)
+  let t2085 := (t2076 * (1 : α))
+  let t2086 := (t2077 * (1 : α))
+  let t2087 := (t2078 * (1 : α))
+  let t2097 := (q1.v.z * t2084)
+  let t2098 := (q1.v.y * t2084)
+  let t2099 := (q1.v.x * t2084)
+  let t2106 := (((q1.r * t2085) + t2097) + ((q1.v.x * t2086) - (q1.v.y * t2087)))
+  let t2107 := (((q1.r * t2086) + t2098) + ((q1.v.z * t2087) - (q1.v.x * t2085)))
+  let t2108 := (((q1.r * t2087) + t2099) + ((q1.v.y * t2085) - (q1.v.z * t2086)))
+  let t2114 := (q1.r * t2084)
+  let t2115 := (t2114 - (((q1.v.x * t2087) + (q1.v.y * t2086)) + (q1.v.z * t2085)))
+  let t2123 := (sqrt ((t2115 * t2115) + (((t2108 * t2108) + (t2107 * t2107)) + (t2106 * t2106))))
+  let t2128 := (t2080 / t2079)
+  let t2129 := (t2076 * t2128)
+  let t2130 := (t2077 * t2128)
+  let t2131 := (t2078 * t2128)
+  let t2147 := (((q1.r * t2129) + t2097) + ((q1.v.x * t2130) - (q1.v.y * t2131)))
+  let t2148 := (((q1.r * t2130) + t2098) + ((q1.v.z * t2131) - (q1.v.x * t2129)))
+  let t2149 := (((q1.r * t2131) + t2099) + ((q1.v.y * t2129) - (q1.v.z * t2130)))
+  let t2155 := (t2114 - (((q1.v.x * t2131) + (q1.v.y * t2130)) + (q1.v.z * t2129)))
+  let t2163 := (sqrt ((t2155 * t2155) + (((t2149 * t2149) + (t2148 * t2148)) + (t2147 * t2147))))
+  let t2164 := (t2155 / t2163)
+  let t2165 := (t2149 / t2163)
+  let t2166 := (t2148 / t2163)
+  let t2167 := (t2147 / t2163)
+  let t2168 := (t1968 / t2066)
+  let t2169 := (t1955 * t2168)
+  let t2170 := (t1956 * t2168)
+  let t2171 := (t1957 * t2168)
+  let t2175 := ((t2169 + t1927) * (-((1 : α) / (4 : α))))
+  let t2176 := ((t2170 + t1928) * (-((1 : α) / (4 : α))))
+  let t2177 := ((t2171 + t1929) * (-((1 : α) / (4 : α))))
+  let t2178 := (V3.length tmin sqrt ⟨t2177, t2176, t2175⟩)
+  let t2179 := (sin t2178)
+  let t2180 := (sabs t2178)
+  let t2181 := (tmax * t2180)
+  let t2182 := (sabs t2179)
+  let t2183 := (cos t2178)
+  let t2184 := (t2175 * (1 : α))
+  let t2185 := (t2176 * (1 : α))
+  let t2186 := (t2177 * (1 : α))
+  let t2196 := (q1.v.z * t2183)
+  let t2197 := (q1.v.y * t2183)
+  let t2198 := (q1.v.x * t2183)
+  let t2205 := (((q1.r * t2184) + t2196) + ((q1.v.x * t2185) - (q1.v.y * t2186)))
+  let t2206 := (((q1.r * t2185) + t2197) + ((q1.v.z * t2186) - (q1.v.x * t2184)))
+  let t2207 := (((q1.r * t2186) + t2198) + ((q1.v.y * t2184) - (q1.v.z * t2185)))
+  let t2213 := (q1.r * t2183)
+  let t2214 := (t2213 - (((q1.v.x * t2186) + (q1.v.y * t2185)) + (q1.v.z * t2184)))
+  let t2222 := (sqrt ((t2214 * t2214) + (((t2207 * t2207) + (t2206 * t2206)) + (t2205 * t2205))))
+  let t2223 := (t2214 / t2222)
+  let t2224 := (t2207 / t2222)
+  let t2225 := (t2206 / t2222)
+  let t2226 := (t2205 / t2222)
+  let t2227 := (t2179 / t2178)
+  let t2228 := (t2175 * t2227)
+  let t2229 := (t2176 * t2227)
+  let t2230 := (t2177 * t2227)
+  let t2246 := (((q1.r * t2228) + t2196) + ((q1.v.x * t2229) - (q1.v.y * t2230)))
+  let t2247 := (((q1.r * t2229) + t2197) + ((q1.v.z * t2230) - (q1.v.x * t2228)))
+  let t2248 := (((q1.r * t2230) + t2198) + ((q1.v.y * t2228) - (q1.v.z * t2229)))
+  let t2254 := (t2213 - (((q1.v.x * t2230) + (q1.v.y * t2229)) + (q1.v.z * t2228)))
+  let t2262 := (sqrt ((t2254 * t2254) + (((t2248 * t2248) + (t2247 * t2247)) + (t2246 * t2246))))
+  let t2263 := (t2254 / t2262)
+  let t2264 := (t2248 / t2262)
+  let t2265 := (t2247 / t2262)
+  let t2266 := (t2246 / t2262)
+  let t2267 := (sin t1966)
+  let t2268 := (sabs t2267)
+  let t2269 := (tmax * t2268)
+  let t2270 := (sabs t1966)
+  let t2271 := (t1927 * (1 : α))
+  let t2272 := (t1928 * (1 : α))
+  let t2273 := (t1929 * (1 : α))
+  let t2277 := ((t1955 + t2271) * (-((1 : α) / (4 : α))))
+  let t2278 := ((t1956 + t2272) * (-((1 : α) / (4 : α))))
+  let t2279 := ((t1957 + t2273) * (-((1 : α) / (4 : α))))
+  let t2280 := (V3.length tmin sqrt ⟨t2279, t2278, t2277⟩)
+  let t2281 := (sin t2280)
+  let t2282 := (sabs t2280)
+  let t2283 := (tmax * t2282)
+  let t2284 := (sabs t2281)
+  let t2285 := (cos t2280)
+  let t2286 := (t2277 * (1 : α))
+  let t2287 := (t2278 * (1 : α))
+  let t2288 := (t2279 * (1 : α))
+  let t2298 := (q1.v.z * t2285)
+  let t2299 := (q1.v.y * t2285)
+  let t2300 := (q1.v.x * t2285)
+  let t2307 := (((q1.r * t2286) + t2298) + ((q1.v.x * t2287) - (q1.v.y * t2288)))
+  let t2308 := (((q1.r * t2287) + t2299) + ((q1.v.z * t2288) - (q1.v.x * t2286)))
+  let t2309 := (((q1.r * t2288) + t2300) + ((q1.v.y * t2286) - (q1.v.z * t2287)))
+  let t2315 := (q1.r * t2285)
+  let t2316 := (t2315 - (((q1.v.x * t2288) + (q1.v.y * t2287)) + (q1.v.z * t2286)))
+  let t2324 := (sqrt ((t2316 * t2316) + (((t2309 * t2309) + (t2308 * t2308)) + (t2307 * t2307))))
+  let t2329 := (t2281 / t2280)
+  let t2330 := (t2277 * t2329)
+  let t2331 := (t2278 * t2329)
+  let t2332 := (t2279 * t2329)
+  let t2348 := (((q1.r * t2330) + t2298) + ((q1.v.x * t2331) - (q1.v.y * t2332)))
+  let t2349 := (((q1.r * t2331) + t2299) + ((q1.v.z * t2332) - (q1.v.x * t2330)))
+  let t2350 := (((q1.r * t2332) + t2300) + ((q1.v.y * t2330) - (q1.v.z * t2331)))
+  let t2356 := (t2315 - (((q1.v.x * t2332) + (q1.v.y * t2331)) + (q1.v.z * t2330)))
+  let t2364 := (sqrt ((t2356 * t2356) + (((t2350 * t2350) + (t2349 * t2349)) + (t2348 * t2348))))
+  let t2365 := (t2356 / t2364)
+  let t2366 := (t2350 / t2364)
+  let t2367 := (t2349 / t2364)
+  let t2368 := (t2348 / t2364)
+  let t2372 := ((t2070 + t2271) * (-((1 : α) / (4 : α))))
+  let t2373 := ((t2071 + t2272) * (-((1 : α) / (4 : α))))
+  let t2374 := ((t2072 + t2273) * (-((1 : α) / (4 : α))))
+  let t2375 := (V3.length tmin sqrt ⟨t2374, t2373, t2372⟩)
+  let t2376 := (sin t2375)
+  let t2377 := (sabs t2375)
+  let t2378 := (tmax * t2377)
+  let t2379 := (sabs t2376)
+  let t2380 := (cos t2375)
+  let t2381 := (t2372 * (1 : α))
+  let t2382 := (t2373 * (1 : α))
+  let t2383 := (t2374 * (1 : α))
+  let t2393 := (q1.v.z * t2380)
+  let t2394 := (q1.v.y * t2380)
+  let t2395 := (q1.v.x * t2380)
+  let t2402 := (((q1.r * t2381) + t2393) + ((q1.v.x * t2382) - (q1.v.y * t2383)))
+  let t2403 := (((q1.r * t2382) + t2394) + ((q1.v.z * t2383) - (q1.v.x * t2381)))
+  let t2404 := (((q1.r * t2383) + t2395) + ((q1.v.y * t2381) - (q1.v.z * t2382)))
+  let t2410 := (q1.r * t2380)
+  let t2411 := (t2410 - (((q1.v.x * t2383) + (q1.v.y * t2382)) + (q1.v.z * t2381)))
+  let t2419 := (sqrt ((t2411 * t2411) + (((t2404 * t2404) + (t2403 * t2403)) + (t2402 * t2402))))
+  let t2424 := (t2376 / t2375)
+  let t2425 := (t2372 * t2424)
+  let t2426 := (t2373 * t2424)
+  let t2427 := (t2374 * t2424)
+  let t2443 := (((q1.r * t2425) + t2393) + ((q1.v.x * t2426) - (q1.v.y * t2427)))
+  let t2444 := (((q1.r * t2426) + t2394) + ((q1.v.z * t2427) - (q1.v.x * t2425)))
+  let t2445 := (((q1.r * t2427) + t2395) + ((q1.v.y * t2425) - (q1.v.z * t2426)))
+  let t2451 := (t2410 - (((q1.v.x * t2427) + (q1.v.y * t2426)) + (q1.v.z * t2425)))
+  let t2459 := (sqrt ((t2451 * t2451) + (((t2445 * t2445) + (t2444 * t2444)) + (t2443 * t2443))))
+  let t2460 := (t2451 / t2459)
+  let t2461 := (t2445 / t2459)
+  let t2462 := (t2444 / t2459)
+  let t2463 := (t2443 / t2459)
+  let t2467 := ((t2169 + t2271) * (-((1 : α) / (4 : α))))
+  let t2468 := ((t2170 + t2272) * (-((1 : α) / (4 : α))))
+  let t2469 := ((t2171 + t2273) * (-((1 : α) / (4 : α))))
+  let t2470 := (V3.length tmin sqrt ⟨t2469, t2468, t2467⟩)
+  let t2471 := (sin t2470)
+  let t2472 := (sabs t2470)
+  let t2473 := (tmax * t2472)
+  let t2474 := (sabs t2471)
+  let t2475 := (cos t2470)
+  let t2476 := (t2467 * (1 : α))
+  let t2477 := (t2468 * (1 : α))
+  let t2478 := (t2469 * (1 : α))
+  let t2488 := (q1.v.z * t2475)
+  let t2489 := (q1.v.y * t2475)
+  let t2490 := (q1.v.x * t2475)
+  let t2497 := (((q1.r * t2476) + t2488) + ((q1.v.x * t2477) - (q1.v.y * t2478)))
+  let t2498 := (((q1.r * t2477) + t2489) + ((q1.v.z * t2478) - (q1.v.x * t2476)))
+  let t2499 := (((q1.r * t2478) + t2490) + ((q1.v.y * t2476) - (q1.v.z * t2477)))
+  let t2505 := (q1.r * t2475)
+  let t2506 := (t2505 - (((q1.v.x * t2478) + (q1.v.y * t2477)) + (q1.v.z * t2476)))
+  let t2514 := (sqrt ((t2506 * t2506) + (((t2499 * t2499) + (t2498 * t2498)) + (t2497 * t2497))))
+  let t2515 := (t2506 / t2514)
+  let t2516 := (t2499 / t2514)
+  let t2517 := (t2498 / t2514)
+  let t2518 := (t2497 / t2514)
+  let t2519 := (t2471 / t2470)
+  let t2520 := (t2467 * t2519)
+  let t2521 := (t2468 * t2519)
+  let t2522 := (t2469 * t2519)
+  let t2538 := (((q1.r * t2520) + t2488) + ((q1.v.x * t2521) - (q1.v.y * t2522)))
+  let t2539 := (((q1.r * t2521) + t2489) + ((q1.v.z * t2522) - (q1.v.x * t2520)))
+  let t2540 := (((q1.r * t2522) + t2490) + ((q1.v.y * t2520) - (q1.v.z * t2521)))
+  let t2546 := (t2505 - (((q1.v.x * t2522) + (q1.v.y * t2521)) + (q1.v.z * t2520)))
+  let t2554 := (sqrt ((t2546 * t2546) + (((t2540 * t2540) + (t2539 * t2539)) + (t2538 * t2538))))
+  let t2555 := (t2546 / t2554)
+  let t2556 := (t2540 / t2554)
+  let t2557 := (t2539 / t2554)
+  let t2558 := (t2538 / t2554)
+  let t2559 := (t1966 / t2267)
+  let t2560 := (t1927 * t2559)
+  let t2561 := (t1928 * t2559)
+  let t2562 := (t1929 * t2559)
+  let t2566 := ((t1955 + t2560) * (-((1 : α) / (4 : α))))
+  let t2567 := ((t1956 + t2561) * (-((1 : α) / (4 : α))))
+  let t2568 := ((t1957 + t2562) * (-((1 : α) / (4 : α))))
+  let t2569 := (V3.length tmin sqrt ⟨t2568, t2567, t2566⟩)
+  let t2570 := (sin t2569)
+  let t2571 := (sabs t2569)
+  let t2572 := (tmax * t2571)
+  let t2573 := (sabs t2570)
+  let t2574 := (cos t2569)
+  let t2575 := (t2566 * (1 : α))
+  let t2576 := (t2567 * (1 : α))
+  let t2577 := (t2568 * (1 : α))
+  let t2587 := (q1.v.z * t2574)
+  let t2588 := (q1.v.y * t2574)
+  let t2589 := (q1.v.x * t2574)
+  let t2596 := (((q1.r * t2575) + t2587) + ((q1.v.x * t2576) - (q1.v.y * t2577)))
+  let t2597 := (((q1.r * t2576) + t2588) + ((q1.v.z * t2577) - (q1.v.x * t2575)))
+  let t2598 := (((q1.r * t2577) + t2589) + ((q1.v.y * t2575) - (q1.v.z * t2576)))
+  let t2604 := (q1.r * t2574)
+  let t2605 := (t2604 - (((q1.v.x * t2577) + (q1.v.y * t2576)) + (q1.v.z * t2575)))
+  let t2613 := (sqrt ((t2605 * t2605) + (((t2598 * t2598) + (t2597 * t2597)) + (t2596 * t2596))))
+  let t2614 := (t2605 / t2613)
+  let t2615 := (t2598 / t2613)
+  let t2616 := (t2597 / t2613)
+  let t2617 := (t2596 / t2613)
+  let t2618 := (t2570 / t2569)
+  let t2619 := (t2566 * t2618)
+  let t2620 := (t2567 * t2618)
+  let t2621 := (t2568 * t2618)
+  let t2637 := (((q1.r * t2619) + t2587) + ((q1.v.x * t2620) - (q1.v.y * t2621)))
+  let t2638 := (((q1.r * t2620) + t2588) + ((q1.v.z * t2621) - (q1.v.x * t2619)))
+  let t2639 := (((q1.r * t2621) + t2589) + ((q1.v.y * t2619) - (q1.v.z * t2620)))
+  let t2645 := (t2604 - (((q1.v.x * t2621) + (q1.v.y * t2620)) + (q1.v.z * t2619)))
+  let t2653 := (sqrt ((t2645 * t2645) + (((t2639 * t2639) + (t2638 * t2638)) + (t2637 * t2637))))
+  let t2654 := (t2645 / t2653)
+  let t2655 := (t2639 / t2653)
+  let t2656 := (t2638 / t2653)
+  let t2657 := (t2637 / t2653)
+  let t2661 := ((t2070 + t2560) * (-((1 : α) / (4 : α))))
+  let t2662 := ((t2071 + t2561) * (-((1 : α) / (4 : α))))
+  let t2663 := ((t2072 + t2562) * (-((1 : α) / (4 : α))))
+  let t2664 := (V3.length tmin sqrt ⟨t2663, t2662, t2661⟩)
+  let t2665 := (sin t2664)
+  let t2666 := (sabs t2664)
+  let t2667 := (tmax * t2666)
+  let t2668 := (sabs t2665)
+  let t2669 := (cos t2664)
+  let t2670 := (t2661 * (1 : α))
+  let t2671 := (t2662 * (1 : α))
+  let t2672 := (t2663 * (1 : α))
+  let t2682 := (q1.v.z * t2669)
+  let t2683 := (q1.v.y * t2669)
+  let t2684 := (q1.v.x * t2669)
+  let t2691 := (((q1.r * t2670) + t2682) + ((q1.v.x * t2671) - (q1.v.y * t2672)))
+  let t2692 := (((q1.r * t2671) + t2683) + ((q1.v.z * t2672) - (q1.v.x * t2670)))
+  let t2693 := (((q1.r * t2672) + t2684) + ((q1.v.y * t2670) - (q1.v.z * t2671)))
+  let t2699 := (q1.r * t2669)
+  let t2700 := (t2699 - (((q1.v.x * t2672) + (q1.v.y * t2671)) + (q1.v.z * t2670)))
+  let t2708 := (sqrt ((t2700 * t2700) + (((t2693 * t2693) + (t2692 * t2692)) + (t2691 * t2691))))
+  let t2709 := (t2700 / t2708)
+  let t2710 := (t2693 / t2708)
+  let t2711 := (t2692 / t2708)
+  let t2712 := (t2691 / t2708)
+  let t2713 := (t2665 / t2664)
+  let t2714 := (t2661 * t2713)
+  let t2715 := (t2662 * t2713)
+  let t2716 := (t2663 * t2713)
+  let t2732 := (((q1.r * t2714) + t2682) + ((q1.v.x * t2715) - (q1.v.y * t2716)))
+  let t2733 := (((q1.r * t2715) + t2683) + ((q1.v.z * t2716) - (q1.v.x * t2714)))
+  let t2734 := (((q1.r * t2716) + t2684) + ((q1.v.y * t2714) - (q1.v.z * t2715)))
+  let t2740 := (t2699 - (((q1.v.x * t2716) + (q1.v.y * t2715)) + (q1.v.z * t2714)))
+  let t2748 := (sqrt ((t2740 * t2740) + (((t2734 * t2734) + (t2733 * t2733)) + (t2732 * t2732))))
+  let t2749 := (t2740 / t2748)
+  let t2750 := (t2734 / t2748)
+  let t2751 := (t2733 / t2748)
+  let t2752 := (t2732 / t2748)
+  let t2756 := ((t2169 + t2560) * (-((1 : α) / (4 : α))))
+  let t2757 := ((t2170 + t2561) * (-((1 : α) / (4 : α))))
+  let t2758 := ((t2171 + t2562) * (-((1 : α) / (4 : α))))
+  let t2759 := (V3.length tmin sqrt ⟨t2758, t2757, t2756⟩)
+  let t2760 := (sin t2759)
+  let t2761 := (sabs t2759)
+  let t2762 := (tmax * t2761)
+  let t2763 := (sabs t2760)
+  let t2764 := (cos t2759)
+  let t2765 := (t2756 * (1 : α))
+  let t2766 := (t2757 * (1 : α))
+  let t2767 := (t2758 * (1 : α))
+  let t2777 := (q1.v.z * t2764)
+  let t2778 := (q1.v.y * t2764)
+  let t2779 := (q1.v.x * t2764)
+  let t2786 := (((q1.r * t2765) + t2777) + ((q1.v.x * t2766) - (q1.v.y * t2767)))
+  let t2787 := (((q1.r * t2766) + t2778) + ((q1.v.z * t2767) - (q1.v.x * t2765)))
+  let t2788 := (((q1.r * t2767) + t2779) + ((q1.v.y * t2765) - (q1.v.z * t2766)))
+  let t2794 := (q1.r * t2764)
+  let t2795 := (t2794 - (((q1.v.x * t2767) + (q1.v.y * t2766)) + (q1.v.z * t2765)))
+  let t2803 := (sqrt ((t2795 * t2795) + (((t2788 * t2788) + (t2787 * t2787)) + (t2786 * t2786))))
+  let t2804 := (t2795 / t2803)
+  let t2805 := (t2788 / t2803)
+  let t2806 := (t2787 / t2803)
+  let t2807 := (t2786 / t2803)
+  let t2808 := (t2760 / t2759)
+  let t2809 := (t2756 * t2808)
+  let t2810 := (t2757 * t2808)
+  let t2811 := (t2758 * t2808)
+  let t2827 := (((q1.r * t2809) + t2777) + ((q1.v.x * t2810) - (q1.v.y * t2811)))
+  let t2828 := (((q1.r * t2810) + t2778) + ((q1.v.z * t2811) - (q1.v.x * t2809)))
+  let t2829 := (((q1.r * t2811) + t2779) + ((q1.v.y * t2809) - (q1.v.z * t2810)))
+  let t2835 := (t2794 - (((q1.v.x * t2811) + (q1.v.y * t2810)) + (q1.v.z * t2809)))
+  let t2843 := (sqrt ((t2835 * t2835) + (((t2829 * t2829) + (t2828 * t2828)) + (t2827 * t2827))))
+  let t2844 := (t2835 / t2843)
+  let t2845 := (t2829 / t2843)
+  let t2846 := (t2828 / t2843)
+  let t2847 := (t2827 / t2843)
+  if t1966 = (0 : α) then
+    if t1968 = (0 : α) then
+      if t1979 < (1 : α) then
+        if t1980 ≤ t1981 then
+          if t2021 = (0 : α) then
             ⟨(1 : α), ⟨(0 : α), (0 : α), (0 : α)⟩⟩
           else
-            ⟨(t1922 / t1930), ⟨(t1915 / t1930), (t1914 / t1930), (t1913 / t1930)⟩⟩
+            ⟨(t2013 / t2021), ⟨(t2006 / t2021), (t2005 / t2021), (t2004 / t2021)⟩⟩
         else
-          if t1970 = (0 : α) then
+          if t2061 = (0 : α) then
             ⟨(1 : α), ⟨(0 : α), (0 : α), (0 : α)⟩⟩
           else
-            ⟨t1971, ⟨t1972, t1973, t1974⟩⟩
+            ⟨t2062, ⟨t2063, t2064, t2065⟩⟩
       else
-        if t1970 = (0 : α) then
+        if t2061 = (0 : α) then
           ⟨(1 : α), ⟨(0 : α), (0 : α), (0 : α)⟩⟩
         else
-          ⟨t1971, ⟨t1972, t1973, t1974⟩⟩
+          ⟨t2062, ⟨t2063, t2064, t2065⟩⟩
     else
-      if t1976 < (1 : α) then
-        if t1977 ≤ t1978 then
-          if t1990 < (1 : α) then
-            if t1991 ≤ t1992 then
-              if t2032 = (0 : α) then
+      if t2067 < (1 : α) then
+        if t2068 ≤ t2069 then
+          if t2081 < (1 : α) then
+            if t2082 ≤ t2083 then
+              if t2123 = (0 : α) then
                 ⟨(1 : α), ⟨(0 : α), (0 : α), (0 : α)⟩⟩
               else
-                ⟨(t2024 / t2032), ⟨(t2017 / t2032), (t2016 / t2032), (t2015 / t2032)⟩⟩
+                ⟨(t2115 / t2123), ⟨(t2108 / t2123), (t2107 / t2123), (t2106 / t2123)⟩⟩
             else
-              if t2072 = (0 : α) then
+              if t2163 = (0 : α) then
                 ⟨(1 : α), ⟨(0 : α), (0 : α), (0 : α)⟩⟩
               else
-                ⟨t2073, ⟨t2074, t2075, t2076⟩⟩
+                ⟨t2164, ⟨t2165, t2166, t2167⟩⟩
           else
-            if t2072 = (0 : α) then
+            if t2163 = (0 : α) then
               ⟨(1 : α), ⟨(0 : α), (0 : α), (0 : α)⟩⟩
             else
-              ⟨t2073, ⟨t2074, t2075, t2076⟩⟩
+              ⟨t2164, ⟨t2165, t2166, t2167⟩⟩
         else
-          if t2089 < (1 : α) then
-            if t2090 ≤ t2091 then
-              if t2131 = (0 : α) then
+          if t2180 < (1 : α) then
+            if t2181 ≤ t2182 then
+              if t2222 = (0 : α) then
                 ⟨(1 : α), ⟨(0 : α), (0 : α), (0 : α)⟩⟩
               else
-                ⟨t2132, ⟨t2133, t2134, t2135⟩⟩
+                ⟨t2223, ⟨t2224, t2225, t2226⟩⟩
             else
-              if t2171 = (0 : α) then
+              if t2262 = (0 : α) then
                 ⟨(1 : α), ⟨(0 : α), (0 : α), (0 : α)⟩⟩
               else
-                ⟨t2172, ⟨t2173, t2174, t2175⟩⟩
+                ⟨t2263, ⟨t2264, t2265, t2266⟩⟩
           else
-            if t2171 = (0 : α) then
+            if t2262 = (0 : α) then
               ⟨(1 : α), ⟨(0 : α), (0 : α), (0 : α)⟩⟩
             else
-              ⟨t2172, ⟨t2173, t2174, t2175⟩⟩
+              ⟨t2263, ⟨t2264, t2265, t2266⟩⟩
       else
-        if t2089 < (1 : α) then
-          if t2090 ≤ t2091 then
-            if t2131 = (0 : α) then
+        if t2180 < (1 : α) then
+          if t2181 ≤ t2182 then
+            if t2222 = (0 : α) then
               ⟨(1 : α), ⟨(0 : α), (0 : α), (0 : α)⟩⟩
             else
-              ⟨t2132, ⟨t2133, t2134, t2135⟩⟩
+              ⟨t2223, ⟨t2224, t2225, t2226⟩⟩
           else
-            if t2171 = (0 : α) then
+            if t2262 = (0 : α) then
               ⟨(1 : α), ⟨(0 : α), (0 : α), (0 : α)⟩⟩
             else
-              ⟨t2172, ⟨t2173, t2174, t2175⟩⟩
+              ⟨t2263, ⟨t2264, t2265, t2266⟩⟩
         else
-          if t2171 = (0 : α) then
+          if t2262 = (0 : α) then
             ⟨(1 : α), ⟨(0 : α), (0 : α), (0 : α)⟩⟩
           else
-            ⟨t2172, ⟨t2173, t2174, t2175⟩⟩
+            ⟨t2263, ⟨t2264, t2265, t2266⟩⟩
   else
-    if t2177 < (1 : α) then
-      if t2178 ≤ t2179 then
-        if t1877 = (0 : α) then
-          if t2191 < (1 : α) then
-            if t2192 ≤ t2193 then
-              if t2233 = (0 : α) then
+    if t2268 < (1 : α) then
+      if t2269 ≤ t2270 then
+        if t1968 = (0 : α) then
+          if t2282 < (1 : α) then
+            if t2283 ≤ t2284 then
+              if t2324 = (0 : α) then
                 ⟨(1 : α), ⟨(0 : α), (0 : α), (0 : α)⟩⟩
               else
-                ⟨(t2225 / t2233), ⟨(t2218 / t2233), (t2217 / t2233), (t2216 / t2233)⟩⟩
+                ⟨(t2316 / t2324), ⟨(t2309 / t2324), (t2308 / t2324), (t2307 / t2324)⟩⟩
             else
-              if t2273 = (0 : α) then
+              if t2364 = (0 : α) then
                 ⟨(1 : α), ⟨(0 : α), (0 : α), (0 : α)⟩⟩
               else
-                ⟨t2274, ⟨t2275, t2276, t2277⟩⟩
+                ⟨t2365, ⟨t2366, t2367, t2368⟩⟩
           else
-            if t2273 = (0 : α) then
+            if t2364 = (0 : α) then
               ⟨(1 : α), ⟨(0 : α), (0 : α), (0 : α)⟩⟩
             else
-              ⟨t2274, ⟨t2275, t2276, t2277⟩⟩
+              ⟨t2365, ⟨t2366, t2367, t2368⟩⟩
         else
-          if t1976 < (1 : α) then
-            if t1977 ≤ t1978 then
-              if t2286 < (1 : α) then
-                if t2287 ≤ t2288 then
-                  if t2328 = (0 : α) then
+          if t2067 < (1 : α) then
+            if t2068 ≤ t2069 then
+              if t2377 < (1 : α) then
+                if t2378 ≤ t2379 then
+                  if t2419 = (0 : α) then
                     ⟨(1 : α), ⟨(0 : α), (0 : α), (0 : α)⟩⟩
                   else
-                    ⟨(t2320 / t2328), ⟨(t2313 / t2328), (t2312 / t2328), (t2311 / t2328)⟩⟩
+                    ⟨(t2411 / t2419), ⟨(t2404 / t2419), (t2403 / t2419), (t2402 / t2419)⟩⟩
                 else
-                  if t2368 = (0 : α) then
+                  if t2459 = (0 : α) then
                     ⟨(1 : α), ⟨(0 : α), (0 : α), (0 : α)⟩⟩
                   else
-                    ⟨t2369, ⟨t2370, t2371, t2372⟩⟩
+                    ⟨t2460, ⟨t2461, t2462, t2463⟩⟩
               else
-                if t2368 = (0 : α) then
+                if t2459 = (0 : α) then
                   ⟨(1 : α), ⟨(0 : α), (0 : α), (0 : α)⟩⟩
                 else
-                  ⟨t2369, ⟨t2370, t2371, t2372⟩⟩
+                  ⟨t2460, ⟨t2461, t2462, t2463⟩⟩
             else
-              if t2381 < (1 : α) then
-                if t2382 ≤ t2383 then
-                  if t2423 = (0 : α) then
+              if t2472 < (1 : α) then
+                if t2473 ≤ t2474 then
+                  if t2514 = (0 : α) then
                     ⟨(1 : α), ⟨(0 : α), (0 : α), (0 : α)⟩⟩
                   else
-                    ⟨t2424, ⟨t2425, t2426, t2427⟩⟩
+                    ⟨t2515, ⟨t2516, t2517, t2518⟩⟩
                 else
-                  if t2463 = (0 : α) then
+                  if t2554 = (0 : α) then
                     ⟨(1 : α), ⟨(0 : α), (0 : α), (0 : α)⟩⟩
                   else
-                    ⟨t2464, ⟨t2465, t2466, t2467⟩⟩
+                    ⟨t2555, ⟨t2556, t2557, t2558⟩⟩
               else
-                if t2463 = (0 : α) then
+                if t2554 = (0 : α) then
                   ⟨(1 : α), ⟨(0 : α), (0 : α), (0 : α)⟩⟩
                 else
-                  ⟨t2464, ⟨t2465, t2466, t2467⟩⟩
+                  ⟨t2555, ⟨t2556, t2557, t2558⟩⟩
           else
-            if t2381 < (1 : α) then
-              if t2382 ≤ t2383 then
-                if t2423 = (0 : α) then
+            if t2472 < (1 : α) then
+              if t2473 ≤ t2474 then
+                if t2514 = (0 : α) then
                   ⟨(1 : α), ⟨(0 : α), (0 : α), (0 : α)⟩⟩
                 else
-                  ⟨t2424, ⟨t2425, t2426, t2427⟩⟩
+                  ⟨t2515, ⟨t2516, t2517, t2518⟩⟩
               else
-                if t2463 = (0 : α) then
+                if t2554 = (0 : α) then
                   ⟨(1 : α), ⟨(0 : α), (0 : α), (0 : α)⟩⟩
                 else
-                  ⟨t2464, ⟨t2465, t2466, t2467⟩⟩
+                  ⟨t2555, ⟨t2556, t2557, t2558⟩⟩
             else
-              if t2463 = (0 : α) then
+              if t2554 = (0 : α) then
                 ⟨(1 : α), ⟨(0 : α), (0 : α), (0 : α)⟩⟩
               else
-                ⟨t2464, ⟨t2465, t2466, t2467⟩⟩
+                ⟨t2555, ⟨t2556, t2557, t2558⟩⟩
       else
-        if t1877 = (0 : α) then
-          if t2480 < (1 : α) then
-            if t2481 ≤ t2482 then
-              if t2522 = (0 : α) then
+        if t1968 = (0 : α) then
+          if t2571 < (1 : α) then
+            if t2572 ≤ t2573 then
+              if t2613 = (0 : α) then
                 ⟨(1 : α), ⟨(0 : α), (0 : α), (0 : α)⟩⟩
               else
-                ⟨t2523, ⟨t2524, t2525, t2526⟩⟩
+                ⟨t2614, ⟨t2615, t2616, t2617⟩⟩
             else
-              if t2562 = (0 : α) then
+              if t2653 = (0 : α) then
                 ⟨(1 : α), ⟨(0 : α), (0 : α), (0 : α)⟩⟩
               else
-                ⟨t2563, ⟨t2564, t2565, t2566⟩⟩
+                ⟨t2654, ⟨t2655, t2656, t2657⟩⟩
           else
-            if t2562 = (0 : α) then
+            if t2653 = (0 : α) then
               ⟨(1 : α), ⟨(0 : α), (0 : α), (0 : α)⟩⟩
             else
-              ⟨t2563, ⟨t2564, t2565, t2566⟩⟩
+              ⟨t2654, ⟨t2655, t2656, t2657⟩⟩
         else
-          if t1976 < (1 : α) then
-            if t1977 ≤ t1978 then
-              if t2575 < (1 : α) then
-                if t2576 ≤ t2577 then
-                  if t2617 = (0 : α) then
+          if t2067 < (1 : α) then
+            if t2068 ≤ t2069 then
+              if t2666 < (1 : α) then
+                if t2667 ≤ t2668 then
+                  if t2708 = (0 : α) then
                     ⟨(1 : α), ⟨(0 : α), (0 : α), (0 : α)⟩⟩
                   else
-                    ⟨t2618, ⟨t2619, t2620, t2621⟩⟩
+                    ⟨t2709, ⟨t2710, t2711, t2712⟩⟩
                 else
-                  if t2657 = (0 : α) then
+                  if t2748 = (0 : α) then
                     ⟨(1 : α), ⟨(0 : α), (0 : α), (0 : α)⟩⟩
                   else
-                    ⟨t2658, ⟨t2659, t2660, t2661⟩⟩
+                    ⟨t2749, ⟨t2750, t2751, t2752⟩⟩
               else
-                if t2657 = (0 : α) then
+                if t2748 = (0 : α) then
                   ⟨(1 : α), ⟨(0 : α), (0 : α), (0 : α)⟩⟩
                 else
-                  ⟨t2658, ⟨t2659, t2660, t2661⟩⟩
+                  ⟨t2749, ⟨t2750, t2751, t2752⟩⟩
             else
-              if t2670 < (1 : α) then
-                if t2671 ≤ t2672 then
-                  if t2712 = (0 : α) then
+              if t2761 < (1 : α) then
+                if t2762 ≤ t2763 then
+                  if t2803 = (0 : α) then
                     ⟨(1 : α), ⟨(0 : α), (0 : α), (0 : α)⟩⟩
                   else
-                    ⟨t2713, ⟨t2714, t2715, t2716⟩⟩
+                    ⟨t2804, ⟨t2805, t2806, t2807⟩⟩
                 else
-                  if t2752 = (0 : α) then
+                  if t2843 = (0 : α) then
                     ⟨(1 : α), ⟨(0 : α), (0 : α), (0 : α)⟩⟩
                   else
-                    ⟨t2753, ⟨t2754, t2755, t2756⟩⟩
+                    ⟨t2844, ⟨t2845, t2846, t2847⟩⟩
               else
-                if t2752 = (0 : α) then
+                if t2843 = (0 : α) then
                   ⟨(1 : α), ⟨(0 : α), (0 : α), (0 : α)⟩⟩
                 else
-                  ⟨t2753, ⟨t2754, t2755, t2756⟩⟩
+                  ⟨t2844, ⟨t2845, t2846, t2847⟩⟩
           else
-            if t2670 < (1 : α) then
-              if t2671 ≤ t2672 then
-                if t2712 = (0 : α) then
+            if t2761 < (1 : α) then
+              if t2762 ≤ t2763 then
+                if t2803 = (0 : α) then
                   ⟨(1 : α), ⟨(0 : α), (0 : α), (0 : α)⟩⟩
                 else
-                  ⟨t2713, ⟨t2714, t2715, t2716⟩⟩
+                  ⟨t2804, ⟨t2805, t2806, t2807⟩⟩
               else
-                if t2752 = (0 : α) then
+                if t2843 = (0 : α) then
                   ⟨(1 : α), ⟨(0 : α), (0 : α), (0 : α)⟩⟩
                 else
-                  ⟨t2753, ⟨t2754, t2755, t2756⟩⟩
+                  ⟨t2844, ⟨t2845, t2846, t2847⟩⟩
             else
-              if t2752 = (0 : α) then
+              if t2843 = (0 : α) then
                 ⟨(1 : α), ⟨(0 : α), (0 : α), (0 : α)⟩⟩
               else
-                ⟨t2753, ⟨t2754, t2755, t2756⟩⟩
+                ⟨t2844, ⟨t2845, t2846, t2847⟩⟩
     else
-      if t1877 = (0 : α) then
-        if t2480 < (1 : α) then
-          if t2481 ≤ t2482 then
-            if t2522 = (0 : α) then
+      if t1968 = (0 : α) then
+        if t2571 < (1 : α) then
+          if t2572 ≤ t2573 then
+            if t2613 = (0 : α) then
               ⟨(1 : α), ⟨(0 : α), (0 : α), (0 : α)⟩⟩
             else
-              ⟨t2523, ⟨t2524, t2525, t2526⟩⟩
+              ⟨t2614, ⟨t2615, t2616, t2617⟩⟩
           else
-            if t2562 = (0 : α) then
+            if t2653 = (0 : α) then
               ⟨(1 : α), ⟨(0 : α), (0 : α), (0 : α)⟩⟩
             else
-              ⟨t2563, ⟨t2564, t2565, t2566⟩⟩
+              ⟨t2654, ⟨t2655, t2656, t2657⟩⟩
         else
-          if t2562 = (0 : α) then
+          if t2653 = (0 : α) then
             ⟨(1 : α), ⟨(0 : α), (0 : α), (0 : α)⟩⟩
           else
-            ⟨t2563, ⟨t2564, t2565, t2566⟩⟩
+            ⟨t2654, ⟨t2655, t2656, t2657⟩⟩
       else
-        if t1976 < (1 : α) then
-          if t1977 ≤ t1978 then
-            if t2575 < (1 : α) then
-              if t2576 ≤ t2577 then
-                if t2617 = (0 : α) then
+        if t2067 < (1 : α) then
+          if t2068 ≤ t2069 then
+            if t2666 < (1 : α) then
+              if t2667 ≤ t2668 then
+                if t2708 = (0 : α) then
                   ⟨(1 : α), ⟨(0 : α), (0 : α), (0 : α)⟩⟩
                 else
-                  ⟨t2618, ⟨t2619, t2620, t2621⟩⟩
+                  ⟨t2709, ⟨t2710, t2711, t2712⟩⟩
               else
-                if t2657 = (0 : α) then
+                if t2748 = (0 : α) then
                   ⟨(1 : α), ⟨(0 : α), (0 : α), (0 : α)⟩⟩
                 else
-                  ⟨t2658, ⟨t2659, t2660, t2661⟩⟩
+                  ⟨t2749, ⟨t2750, t2751, t2752⟩⟩
             else
-              if t2657 = (0 : α) then
+              if t2748 = (0 : α) then
                 ⟨(1 : α), ⟨(0 : α), (0 : α), (0 : α)⟩⟩
               else
-                ⟨t2658, ⟨t2659, t2660, t2661⟩⟩
+                ⟨t2749, ⟨t2750, t2751, t2752⟩⟩
           else
-            if t2670 < (1 : α) then
-              if t2671 ≤ t2672 then
-                if t2712 = (0 : α) then
+            if t2761 < (1 : α) then
+              if t2762 ≤ t2763 then
+                if t2803 = (0 : α) then
                   ⟨(1 : α), ⟨(0 : α), (0 : α), (0 : α)⟩⟩
                 else
-                  ⟨t2713, ⟨t2714, t2715, t2716⟩⟩
+                  ⟨t2804, ⟨t2805, t2806, t2807⟩⟩
               else
-                if t2752 = (0 : α) then
+                if t2843 = (0 : α) then
                   ⟨(1 : α), ⟨(0 : α), (0 : α), (0 : α)⟩⟩
                 else
-                  ⟨t2753, ⟨t2754, t2755, t2756⟩⟩
+                  ⟨t2844, ⟨t2845, t2846, t2847⟩⟩
             else
-              if t2752 = (0 : α) then
+              if t2843 = (0 : α) then
                 ⟨(1 : α), ⟨(0 : α), (0 : α), (0 : α)⟩⟩
               else
-                ⟨t2753, ⟨t2754, t2755, t2756⟩⟩
+                ⟨t2844, ⟨t2845, t2846, t2847⟩⟩
         else
-          if t2670 < (1 : α) then
-            if t2671 ≤ t2672 then
-              if t2712 = (0 : α) then
+          if t2761 < (1 : α) then
+            if t2762 ≤ t2763 then
+              if t2803 = (0 : α) then
                 ⟨(1 : α), ⟨(0 : α), (0 : α), (0 : α)⟩⟩
               else
-                ⟨t2713, ⟨t2714, t2715, t2716⟩⟩
+                ⟨t2804, ⟨t2805, t2806, t2807⟩⟩
             else
-              if t2752 = (0 : α) then
+              if t2843 = (0 : α) then
                 ⟨(1 : α), ⟨(0 : α), (0 : α), (0 : α)⟩⟩
               else
-                ⟨t2753, ⟨t2754, t2755, t2756⟩⟩
+                ⟨t2844, ⟨t2845, t2846, t2847⟩⟩
           else
-            if t2752 = (0 : α) then
+            if t2843 = (0 : α) then
               ⟨(1 : α), ⟨(0 : α), (0 : α), (0 : α)⟩⟩
             else
-              ⟨t2753, ⟨t2754, t2755, t2756⟩⟩
+              ⟨t2844, ⟨t2845, t2846, t2847⟩⟩
 
 end ImathVerif.Gen
